@@ -2582,6 +2582,1777 @@ Proof.
   apply andb_prop in X11. apply andb_prop in X12'. destruct X11 as [A1 A2], X12' as [B1 B2]. rewrite A1, B1, (IH A2 B2). reflexivity.
 Qed.
 
+(* ================================================================== C03: ok_connect *)
+(* CR b g ty rw s: what the registrations say about what was received (g: a lower bound of the ghost;
+   ty, rw: the connection's type and raw flag, constant while the attempt lasts) *)
+Definition is_pa (k : hkind) : bool := match k with HFeaturesSasl | HFeaturesCompress | HCompressResult | HSm => true | _ => false end.
+Definition pa_oh (h : openh) : bool := match h with OpenSasl | OpenCompress => true | _ => false end.
+Definition postauth (s : state) : bool :=
+  existsb (fun x => is_pa (fst x)) (handlers s) || id_has IKBind s || id_has IKSession s || pa_oh (oh s).
+Definition clientreg (s : state) : bool :=
+  negb (Nat.eqb (hmarks s) 0) || negb (Nat.eqb (imarks s) 0) || id_has IKLegacy s || client_oh (oh s).
+Definition live (s : state) : bool := match st s with Disconnected => false | _ => true end.
+Definition isclient (ty : ctype) (rw : bool) : Prop := ty = TClient /\ rw = false.
+Definition iscomp (ty : ctype) (rw : bool) : Prop := ty = TComponent /\ rw = false.
+Definition CR (b : bool) (g : ghost) (ty : ctype) (rw : bool) (s : state) : Prop :=
+  (postauth s = true -> g_auth_ok g = true) /\
+  (id_has IKSession s = true -> g_bound g = true) /\
+  (b = true -> live s = true -> h_has HSm s = true -> sm_resume s = false -> g_bound g = true) /\
+  (sm_enabled s = true -> g_bound g = true \/ g_resumed g = true) /\
+  (live s = true -> clientreg s = true -> isclient ty rw) /\
+  (live s = true -> (h_has HComponentHs s = true \/ oh s = OpenComponent) -> iscomp ty rw) /\
+  (oh s = OpenRaw -> rw = true).
+Ltac cr_split := refine (conj _ (conj _ (conj _ (conj _ (conj _ (conj _ _)))))).
+Ltac cr_dest H := destruct H as (R1 & R2 & R3 & R4 & R5 & R6 & R7).
+Lemma CR_mono : forall b g g' ty rw s, GFr g g' -> CR b g ty rw s -> CR b g' ty rw s.
+Proof.
+  intros b g g' ty rw s F H. cr_dest H. cr_split; auto; try (intros; apply F; auto).
+  intros E. destruct (R4 E) as [A|A]; [left | right]; apply F; exact A.
+Qed.
+Lemma CR_set_f_tls_disabled : forall b g ty rw v s, CR b g ty rw s -> CR b g ty rw (set_f_tls_disabled v s).
+Proof. intros b g ty rw v []; exact (fun h => h). Qed.
+#[export] Hint Resolve CR_set_f_tls_disabled : crdb.
+Lemma CR_set_f_tls_mandatory : forall b g ty rw v s, CR b g ty rw s -> CR b g ty rw (set_f_tls_mandatory v s).
+Proof. intros b g ty rw v []; exact (fun h => h). Qed.
+#[export] Hint Resolve CR_set_f_tls_mandatory : crdb.
+Lemma CR_set_f_legacy_ssl : forall b g ty rw v s, CR b g ty rw s -> CR b g ty rw (set_f_legacy_ssl v s).
+Proof. intros b g ty rw v []; exact (fun h => h). Qed.
+#[export] Hint Resolve CR_set_f_legacy_ssl : crdb.
+Lemma CR_set_f_tls_trust : forall b g ty rw v s, CR b g ty rw s -> CR b g ty rw (set_f_tls_trust v s).
+Proof. intros b g ty rw v []; exact (fun h => h). Qed.
+#[export] Hint Resolve CR_set_f_tls_trust : crdb.
+Lemma CR_set_f_legacy_auth : forall b g ty rw v s, CR b g ty rw s -> CR b g ty rw (set_f_legacy_auth v s).
+Proof. intros b g ty rw v []; exact (fun h => h). Qed.
+#[export] Hint Resolve CR_set_f_legacy_auth : crdb.
+Lemma CR_set_f_sm_disable : forall b g ty rw v s, CR b g ty rw s -> CR b g ty rw (set_f_sm_disable v s).
+Proof. intros b g ty rw v []; exact (fun h => h). Qed.
+#[export] Hint Resolve CR_set_f_sm_disable : crdb.
+Lemma CR_set_f_comp_allowed : forall b g ty rw v s, CR b g ty rw s -> CR b g ty rw (set_f_comp_allowed v s).
+Proof. intros b g ty rw v []; exact (fun h => h). Qed.
+#[export] Hint Resolve CR_set_f_comp_allowed : crdb.
+Lemma CR_set_f_comp_dont_reset : forall b g ty rw v s, CR b g ty rw s -> CR b g ty rw (set_f_comp_dont_reset v s).
+Proof. intros b g ty rw v []; exact (fun h => h). Qed.
+#[export] Hint Resolve CR_set_f_comp_dont_reset : crdb.
+Lemma CR_set_jid_set : forall b g ty rw v s, CR b g ty rw s -> CR b g ty rw (set_jid_set v s).
+Proof. intros b g ty rw v []; exact (fun h => h). Qed.
+#[export] Hint Resolve CR_set_jid_set : crdb.
+Lemma CR_set_jid_node : forall b g ty rw v s, CR b g ty rw s -> CR b g ty rw (set_jid_node v s).
+Proof. intros b g ty rw v []; exact (fun h => h). Qed.
+#[export] Hint Resolve CR_set_jid_node : crdb.
+Lemma CR_set_jid_res : forall b g ty rw v s, CR b g ty rw s -> CR b g ty rw (set_jid_res v s).
+Proof. intros b g ty rw v []; exact (fun h => h). Qed.
+#[export] Hint Resolve CR_set_jid_res : crdb.
+Lemma CR_set_pass_set : forall b g ty rw v s, CR b g ty rw s -> CR b g ty rw (set_pass_set v s).
+Proof. intros b g ty rw v []; exact (fun h => h). Qed.
+#[export] Hint Resolve CR_set_pass_set : crdb.
+Lemma CR_set_cert_set : forall b g ty rw v s, CR b g ty rw s -> CR b g ty rw (set_cert_set v s).
+Proof. intros b g ty rw v []; exact (fun h => h). Qed.
+#[export] Hint Resolve CR_set_cert_set : crdb.
+Lemma CR_set_is_raw : forall b g ty rw v s, CR b g ty rw s -> CR b g ty rw (set_is_raw v s).
+Proof. intros b g ty rw v []; exact (fun h => h). Qed.
+#[export] Hint Resolve CR_set_is_raw : crdb.
+Lemma CR_set_typ : forall b g ty rw v s, CR b g ty rw s -> CR b g ty rw (set_typ v s).
+Proof. intros b g ty rw v []; exact (fun h => h). Qed.
+#[export] Hint Resolve CR_set_typ : crdb.
+Lemma CR_set_user_handler : forall b g ty rw v s, CR b g ty rw s -> CR b g ty rw (set_user_handler v s).
+Proof. intros b g ty rw v []; exact (fun h => h). Qed.
+#[export] Hint Resolve CR_set_user_handler : crdb.
+Lemma CR_set_user_timed : forall b g ty rw v s, CR b g ty rw s -> CR b g ty rw (set_user_timed v s).
+Proof. intros b g ty rw v []; exact (fun h => h). Qed.
+#[export] Hint Resolve CR_set_user_timed : crdb.
+Lemma CR_set_tlsnew_ok : forall b g ty rw v s, CR b g ty rw s -> CR b g ty rw (set_tlsnew_ok v s).
+Proof. intros b g ty rw v []; exact (fun h => h). Qed.
+#[export] Hint Resolve CR_set_tlsnew_ok : crdb.
+Lemma CR_set_cb_avail : forall b g ty rw v s, CR b g ty rw s -> CR b g ty rw (set_cb_avail v s).
+Proof. intros b g ty rw v []; exact (fun h => h). Qed.
+#[export] Hint Resolve CR_set_cb_avail : crdb.
+Lemma CR_set_tls_verdicts : forall b g ty rw v s, CR b g ty rw s -> CR b g ty rw (set_tls_verdicts v s).
+Proof. intros b g ty rw v []; exact (fun h => h). Qed.
+#[export] Hint Resolve CR_set_tls_verdicts : crdb.
+Lemma CR_set_next_cands : forall b g ty rw v s, CR b g ty rw s -> CR b g ty rw (set_next_cands v s).
+Proof. intros b g ty rw v []; exact (fun h => h). Qed.
+#[export] Hint Resolve CR_set_next_cands : crdb.
+Lemma CR_set_cands : forall b g ty rw v s, CR b g ty rw s -> CR b g ty rw (set_cands v s).
+Proof. intros b g ty rw v []; exact (fun h => h). Qed.
+#[export] Hint Resolve CR_set_cands : crdb.
+Lemma CR_set_cur_ep : forall b g ty rw v s, CR b g ty rw s -> CR b g ty rw (set_cur_ep v s).
+Proof. intros b g ty rw v []; exact (fun h => h). Qed.
+#[export] Hint Resolve CR_set_cur_ep : crdb.
+Lemma CR_set_stamp : forall b g ty rw v s, CR b g ty rw s -> CR b g ty rw (set_stamp v s).
+Proof. intros b g ty rw v []; exact (fun h => h). Qed.
+#[export] Hint Resolve CR_set_stamp : crdb.
+Lemma CR_set_err : forall b g ty rw v s, CR b g ty rw s -> CR b g ty rw (set_err v s).
+Proof. intros b g ty rw v []; exact (fun h => h). Qed.
+#[export] Hint Resolve CR_set_err : crdb.
+Lemma CR_set_stream_error : forall b g ty rw v s, CR b g ty rw s -> CR b g ty rw (set_stream_error v s).
+Proof. intros b g ty rw v []; exact (fun h => h). Qed.
+#[export] Hint Resolve CR_set_stream_error : crdb.
+Lemma CR_set_secured : forall b g ty rw v s, CR b g ty rw s -> CR b g ty rw (set_secured v s).
+Proof. intros b g ty rw v []; exact (fun h => h). Qed.
+#[export] Hint Resolve CR_set_secured : crdb.
+Lemma CR_set_tls_present : forall b g ty rw v s, CR b g ty rw s -> CR b g ty rw (set_tls_present v s).
+Proof. intros b g ty rw v []; exact (fun h => h). Qed.
+#[export] Hint Resolve CR_set_tls_present : crdb.
+Lemma CR_set_tls_failed : forall b g ty rw v s, CR b g ty rw s -> CR b g ty rw (set_tls_failed v s).
+Proof. intros b g ty rw v []; exact (fun h => h). Qed.
+#[export] Hint Resolve CR_set_tls_failed : crdb.
+Lemma CR_set_tls_support : forall b g ty rw v s, CR b g ty rw s -> CR b g ty rw (set_tls_support v s).
+Proof. intros b g ty rw v []; exact (fun h => h). Qed.
+#[export] Hint Resolve CR_set_tls_support : crdb.
+Lemma CR_set_sasl : forall b g ty rw v s, CR b g ty rw s -> CR b g ty rw (set_sasl v s).
+Proof. intros b g ty rw v []; exact (fun h => h). Qed.
+#[export] Hint Resolve CR_set_sasl : crdb.
+Lemma CR_set_bind_required : forall b g ty rw v s, CR b g ty rw s -> CR b g ty rw (set_bind_required v s).
+Proof. intros b g ty rw v []; exact (fun h => h). Qed.
+#[export] Hint Resolve CR_set_bind_required : crdb.
+Lemma CR_set_session_required : forall b g ty rw v s, CR b g ty rw s -> CR b g ty rw (set_session_required v s).
+Proof. intros b g ty rw v []; exact (fun h => h). Qed.
+#[export] Hint Resolve CR_set_session_required : crdb.
+Lemma CR_set_comp_supported : forall b g ty rw v s, CR b g ty rw s -> CR b g ty rw (set_comp_supported v s).
+Proof. intros b g ty rw v []; exact (fun h => h). Qed.
+#[export] Hint Resolve CR_set_comp_supported : crdb.
+Lemma CR_set_comp_active : forall b g ty rw v s, CR b g ty rw s -> CR b g ty rw (set_comp_active v s).
+Proof. intros b g ty rw v []; exact (fun h => h). Qed.
+#[export] Hint Resolve CR_set_comp_active : crdb.
+Lemma CR_set_sm_alloc : forall b g ty rw v s, CR b g ty rw s -> CR b g ty rw (set_sm_alloc v s).
+Proof. intros b g ty rw v []; exact (fun h => h). Qed.
+#[export] Hint Resolve CR_set_sm_alloc : crdb.
+Lemma CR_set_sm_support : forall b g ty rw v s, CR b g ty rw s -> CR b g ty rw (set_sm_support v s).
+Proof. intros b g ty rw v []; exact (fun h => h). Qed.
+#[export] Hint Resolve CR_set_sm_support : crdb.
+Lemma CR_set_sm_can_resume : forall b g ty rw v s, CR b g ty rw s -> CR b g ty rw (set_sm_can_resume v s).
+Proof. intros b g ty rw v []; exact (fun h => h). Qed.
+#[export] Hint Resolve CR_set_sm_can_resume : crdb.
+Lemma CR_set_sm_dont_request : forall b g ty rw v s, CR b g ty rw s -> CR b g ty rw (set_sm_dont_request v s).
+Proof. intros b g ty rw v []; exact (fun h => h). Qed.
+#[export] Hint Resolve CR_set_sm_dont_request : crdb.
+Lemma CR_set_sm_has_previd : forall b g ty rw v s, CR b g ty rw s -> CR b g ty rw (set_sm_has_previd v s).
+Proof. intros b g ty rw v []; exact (fun h => h). Qed.
+#[export] Hint Resolve CR_set_sm_has_previd : crdb.
+Lemma CR_set_sm_has_id : forall b g ty rw v s, CR b g ty rw s -> CR b g ty rw (set_sm_has_id v s).
+Proof. intros b g ty rw v []; exact (fun h => h). Qed.
+#[export] Hint Resolve CR_set_sm_has_id : crdb.
+Lemma CR_set_sm_parked : forall b g ty rw v s, CR b g ty rw s -> CR b g ty rw (set_sm_parked v s).
+Proof. intros b g ty rw v []; exact (fun h => h). Qed.
+#[export] Hint Resolve CR_set_sm_parked : crdb.
+Lemma CR_set_sm_r_sent : forall b g ty rw v s, CR b g ty rw s -> CR b g ty rw (set_sm_r_sent v s).
+Proof. intros b g ty rw v []; exact (fun h => h). Qed.
+#[export] Hint Resolve CR_set_sm_r_sent : crdb.
+Lemma CR_set_sm_bind_saved : forall b g ty rw v s, CR b g ty rw s -> CR b g ty rw (set_sm_bind_saved v s).
+Proof. intros b g ty rw v []; exact (fun h => h). Qed.
+#[export] Hint Resolve CR_set_sm_bind_saved : crdb.
+Lemma CR_set_bound_jid : forall b g ty rw v s, CR b g ty rw s -> CR b g ty rw (set_bound_jid v s).
+Proof. intros b g ty rw v []; exact (fun h => h). Qed.
+#[export] Hint Resolve CR_set_bound_jid : crdb.
+Lemma CR_set_stream_id : forall b g ty rw v s, CR b g ty rw s -> CR b g ty rw (set_stream_id v s).
+Proof. intros b g ty rw v []; exact (fun h => h). Qed.
+#[export] Hint Resolve CR_set_stream_id : crdb.
+Lemma CR_set_neg_done : forall b g ty rw v s, CR b g ty rw s -> CR b g ty rw (set_neg_done v s).
+Proof. intros b g ty rw v []; exact (fun h => h). Qed.
+#[export] Hint Resolve CR_set_neg_done : crdb.
+Lemma CR_set_reset_parser : forall b g ty rw v s, CR b g ty rw s -> CR b g ty rw (set_reset_parser v s).
+Proof. intros b g ty rw v []; exact (fun h => h). Qed.
+#[export] Hint Resolve CR_set_reset_parser : crdb.
+Lemma CR_set_ps : forall b g ty rw v s, CR b g ty rw s -> CR b g ty rw (set_ps v s).
+Proof. intros b g ty rw v []; exact (fun h => h). Qed.
+#[export] Hint Resolve CR_set_ps : crdb.
+Lemma CR_set_timed : forall b g ty rw v s, CR b g ty rw s -> CR b g ty rw (set_timed v s).
+Proof. intros b g ty rw v []; exact (fun h => h). Qed.
+#[export] Hint Resolve CR_set_timed : crdb.
+Lemma CR_set_sendq : forall b g ty rw v s, CR b g ty rw s -> CR b g ty rw (set_sendq v s).
+Proof. intros b g ty rw v []; exact (fun h => h). Qed.
+#[export] Hint Resolve CR_set_sendq : crdb.
+Lemma CR_set_rxq : forall b g ty rw v s, CR b g ty rw s -> CR b g ty rw (set_rxq v s).
+Proof. intros b g ty rw v []; exact (fun h => h). Qed.
+#[export] Hint Resolve CR_set_rxq : crdb.
+Lemma CR_set_smq : forall b g ty rw v s, CR b g ty rw s -> CR b g ty rw (set_smq v s).
+Proof. intros b g ty rw v []; exact (fun h => h). Qed.
+#[export] Hint Resolve CR_set_smq : crdb.
+Lemma CR_set_sm_sent : forall b g ty rw v s, CR b g ty rw s -> CR b g ty rw (set_sm_sent v s).
+Proof. intros b g ty rw v []; exact (fun h => h). Qed.
+#[export] Hint Resolve CR_set_sm_sent : crdb.
+Lemma CR_set_scram_serial : forall b g ty rw v s, CR b g ty rw s -> CR b g ty rw (set_scram_serial v s).
+Proof. intros b g ty rw v []; exact (fun h => h). Qed.
+#[export] Hint Resolve CR_set_scram_serial : crdb.
+Lemma CR_set_crashed : forall b g ty rw v s, CR b g ty rw s -> CR b g ty rw (set_crashed v s).
+Proof. intros b g ty rw v []; exact (fun h => h). Qed.
+#[export] Hint Resolve CR_set_crashed : crdb.
+Lemma CR_set_gh : forall b g ty rw v s, CR b g ty rw s -> CR b g ty rw (set_gh v s).
+Proof. intros b g ty rw v []; exact (fun h => h). Qed.
+#[export] Hint Resolve CR_set_gh : crdb.
+Lemma CR_upg : forall b g ty rw f s, CR b g ty rw s -> CR b g ty rw (upg f s).
+Proof. intros b g ty rw f []; exact (fun h => h). Qed.
+#[export] Hint Resolve CR_upg : crdb.
+
+Lemma existsb_pa_app : forall (a b : list (hkind * bool)),
+  existsb (fun x => is_pa (fst x)) (a ++ b) = existsb (fun x => is_pa (fst x)) a || existsb (fun x => is_pa (fst x)) b.
+Proof. intros; apply existsb_app. Qed.
+Definition okh (g : ghost) (ty : ctype) (rw : bool) (s : state) (k : hkind) : Prop :=
+  (is_pa k = true -> g_auth_ok g = true) /\
+  (hkind_eqb HSm k = true -> sm_resume s = false -> g_bound g = true) /\
+  (is_main k = true -> isclient ty rw) /\
+  (hkind_eqb HComponentHs k = true -> iscomp ty rw).
+Lemma hmarks_h_add_nm : forall k s, is_main k = false -> hmarks (h_add k s) = hmarks s.
+Proof.
+  intros k s M. unfold h_add. destruct (h_has k s); auto. unfold hmarks. sproj. rewrite filter_length_app. cbn. rewrite M. cbn. lia.
+Qed.
+Lemma CR_h_add : forall b g ty rw k s, okh g ty rw s k -> CR b g ty rw s -> CR b g ty rw (h_add k s).
+Proof.
+  intros b g ty rw k s (O1 & O2 & O3 & O4) H. cr_dest H.
+  assert (Eid : forall j, id_has j (h_add k s) = id_has j s) by (intros; unfold h_add; cases; reflexivity).
+  assert (Eoh : oh (h_add k s) = oh s) by (unfold h_add; cases; reflexivity).
+  assert (Elv : live (h_add k s) = live s) by (unfold h_add; cases; reflexivity).
+  assert (Esr : sm_resume (h_add k s) = sm_resume s) by (unfold h_add; cases; reflexivity).
+  assert (Ese : sm_enabled (h_add k s) = sm_enabled s) by (unfold h_add; cases; reflexivity).
+  assert (Eim : imarks (h_add k s) = imarks s) by (unfold h_add; cases; reflexivity).
+  cr_split; rewrite ?Eid, ?Eoh, ?Elv, ?Esr, ?Ese; auto.
+  - unfold postauth. rewrite !Eid, Eoh. intros P. destruct (is_pa k) eqn:K; auto. apply R1. unfold postauth.
+    revert P. unfold h_add. destruct (h_has k s); auto. sproj. rewrite existsb_pa_app. cbn. rewrite K. rewrite orb_false_r. auto.
+  - rewrite h_has_h_add. intros Bt L Hh Sr. destruct (hkind_eqb HSm k) eqn:K; auto. rewrite orb_false_r in Hh. auto.
+  - intros L C. destruct (is_main k) eqn:K; auto. apply R5; auto. revert C. unfold clientreg. rewrite !Eid, Eoh, Eim, (hmarks_h_add_nm k s K). auto.
+  - rewrite h_has_h_add. intros L [C|C]; auto. destruct (hkind_eqb HComponentHs k) eqn:K; auto. rewrite orb_false_r in C. auto.
+Qed.
+Lemma existsb_filter_le : forall {A} (p f : A -> bool) l, existsb p (filter f l) = true -> existsb p l = true.
+Proof.
+  intros A p f l. induction l as [|x l IH]; cbn; auto. destruct (f x); cbn; intros P.
+  - apply orb_prop in P. destruct P as [P|P]; [rewrite P; reflexivity | rewrite (IH P); apply orb_true_r].
+  - rewrite (IH P). apply orb_true_r.
+Qed.
+Lemma postauth_h_del : forall k s, postauth (h_del k s) = true -> postauth s = true.
+Proof.
+  intros k s. unfold postauth, h_del, id_has. sproj. intros P.
+  destruct (existsb (fun x => is_pa (fst x)) (filter (fun x => negb (hkind_eqb k (fst x))) (handlers s))) eqn:E.
+  - rewrite (existsb_filter_le _ _ _ E). reflexivity.
+  - cbn [orb] in P. rewrite <- !orb_assoc. rewrite <- !orb_assoc in P. rewrite P. apply orb_true_r.
+Qed.
+Lemma clientreg_h_del : forall k s, clientreg (h_del k s) = true -> clientreg s = true.
+Proof.
+  intros k s. unfold clientreg. pose proof (hmarks_h_del_le k s).
+  assert (imarks (h_del k s) = imarks s) as -> by reflexivity. assert (id_has IKLegacy (h_del k s) = id_has IKLegacy s) as -> by reflexivity.
+  assert (oh (h_del k s) = oh s) as -> by reflexivity.
+  destruct (Nat.eqb (hmarks (h_del k s)) 0) eqn:E1; cbn [negb orb].
+  - intros C. destruct (negb (Nat.eqb (hmarks s) 0)); [reflexivity | exact C].
+  - intros _. destruct (Nat.eqb (hmarks s) 0) eqn:E2; auto. apply Nat.eqb_eq in E2. apply Nat.eqb_neq in E1. lia.
+Qed.
+Lemma CR_h_del : forall b g ty rw k s, CR b g ty rw s -> CR b g ty rw (h_del k s).
+Proof.
+  intros b g ty rw k s H. cr_dest H.
+  assert (Hh : forall j, h_has j (h_del k s) = true -> h_has j s = true) by (intros j; rewrite h_has_h_del; intros E; apply andb_prop in E; apply E).
+  cr_split; auto.
+  - intros P. apply R1, (postauth_h_del k s P).
+  - intros L C. apply R5; auto. exact (clientreg_h_del k s C).
+  - intros L [C|C]; apply R6; auto.
+Qed.
+#[export] Hint Resolve CR_h_del : crdb.
+Definition oki (g : ghost) (ty : ctype) (rw : bool) (k : idk) : Prop :=
+  (is_main_id k = true -> g_auth_ok g = true) /\ (idk_eqb IKSession k = true -> g_bound g = true) /\ isclient ty rw.
+Lemma imarks_id_add_ge : forall k s, (imarks s <= imarks (id_add k s))%nat.
+Proof. intros. unfold id_add. destruct (id_has k s); auto. unfold imarks. sproj. rewrite filter_length_app. lia. Qed.
+Lemma CR_id_add : forall b g ty rw k s, oki g ty rw k -> CR b g ty rw s -> CR b g ty rw (id_add k s).
+Proof.
+  intros b g ty rw k s (O1 & O2 & O3) H. cr_dest H.
+  assert (Eh : handlers (id_add k s) = handlers s) by (unfold id_add; cases; reflexivity).
+  assert (Eoh : oh (id_add k s) = oh s) by (unfold id_add; cases; reflexivity).
+  assert (Elv : live (id_add k s) = live s) by (unfold id_add; cases; reflexivity).
+  assert (Esr : sm_resume (id_add k s) = sm_resume s) by (unfold id_add; cases; reflexivity).
+  assert (Ese : sm_enabled (id_add k s) = sm_enabled s) by (unfold id_add; cases; reflexivity).
+  cr_split; unfold h_has; rewrite ?Eh, ?Eoh, ?Elv, ?Esr, ?Ese; auto.
+  - unfold postauth. rewrite Eh, Eoh, !id_has_id_add. intros P. destruct (is_main_id k) eqn:K; auto. apply R1. unfold postauth.
+    destruct k; try discriminate. cbn [idk_eqb] in P. rewrite !orb_false_r in P. exact P.
+  - rewrite id_has_id_add. intros P. destruct (idk_eqb IKSession k) eqn:K; auto. rewrite orb_false_r in P. auto.
+Qed.
+Lemma postauth_id_del : forall k s, postauth (id_del k s) = true -> postauth s = true.
+Proof.
+  intros k s. unfold postauth. rewrite !id_has_id_del. assert (handlers (id_del k s) = handlers s) as -> by reflexivity.
+  assert (oh (id_del k s) = oh s) as -> by reflexivity. intros P.
+  repeat (apply orb_prop in P; destruct P as [P|P]); rewrite ?P, ?orb_true_r; auto; apply andb_prop in P; destruct P as [P _]; rewrite P, ?orb_true_r; reflexivity.
+Qed.
+Lemma clientreg_id_del : forall k s, clientreg (id_del k s) = true -> clientreg s = true.
+Proof.
+  intros k s. unfold clientreg. pose proof (imarks_id_del k s). rewrite id_has_id_del.
+  assert (hmarks (id_del k s) = hmarks s) as -> by reflexivity. assert (oh (id_del k s) = oh s) as -> by reflexivity.
+  destruct (negb (Nat.eqb (hmarks s) 0)); [reflexivity|]. cbn [orb].
+  destruct (Nat.eqb (imarks (id_del k s)) 0) eqn:E1; cbn [negb orb].
+  - intros C. destruct (negb (Nat.eqb (imarks s) 0)); [reflexivity|]. cbn [orb]. apply orb_prop in C. destruct C as [C|C]; [apply andb_prop in C; destruct C as [C _]; rewrite C; reflexivity | rewrite C; apply orb_true_r].
+  - intros _. destruct (Nat.eqb (imarks s) 0) eqn:E2; auto. apply Nat.eqb_eq in E2. apply Nat.eqb_neq in E1. lia.
+Qed.
+Lemma CR_id_del : forall b g ty rw k s, CR b g ty rw s -> CR b g ty rw (id_del k s).
+Proof.
+  intros b g ty rw k s H. cr_dest H. cr_split; auto.
+  - intros P. apply R1, (postauth_id_del k s P).
+  - rewrite id_has_id_del. intros P. apply andb_prop in P. apply R2, P.
+  - intros L C. apply R5; auto. exact (clientreg_id_del k s C).
+Qed.
+#[export] Hint Resolve CR_id_del : crdb.
+Lemma CR_enable_all : forall b g ty rw s, CR b g ty rw s -> CR b g ty rw (set_handlers (map (fun x => (fst x, true)) (handlers s)) s).
+Proof.
+  intros b g ty rw s H. cr_dest H.
+  assert (E : existsb (fun x => is_pa (fst x)) (map (fun x : hkind * bool => (fst x, true)) (handlers s)) = existsb (fun x => is_pa (fst x)) (handlers s)).
+  { induction (handlers s) as [|x l IH]; cbn; [reflexivity|]. rewrite IH. reflexivity. }
+  cr_split; auto.
+  - unfold postauth, id_has. sproj. rewrite E. exact R1.
+  - rewrite h_has_enable_all. exact R3.
+  - unfold clientreg. rewrite hmarks_enable_all. exact R5.
+  - rewrite h_has_enable_all. exact R6.
+Qed.
+#[export] Hint Resolve CR_enable_all : crdb.
+Definition okr (g : ghost) (ty : ctype) (rw : bool) (h : openh) : Prop :=
+  (pa_oh h = true -> g_auth_ok g = true) /\ (client_oh h = true -> isclient ty rw) /\ h <> OpenComponent /\ (h = OpenRaw -> rw = true).
+Lemma CR_prepare_reset : forall b g ty rw h s, okr g ty rw h -> CR b g ty rw s -> CR b g ty rw (prepare_reset h s).
+Proof.
+  intros b g ty rw h s (O1 & O2 & O3 & O4) H. cr_dest H. unfold prepare_reset. cr_split; auto.
+  - unfold postauth, id_has. sproj. intros P. destruct (pa_oh h) eqn:K; auto. apply R1. unfold postauth, id_has. rewrite orb_false_r in P. rewrite P. reflexivity.
+  - unfold clientreg, id_has, hmarks, imarks. sproj. intros L C. destruct (client_oh h) eqn:K; auto. apply R5; auto.
+    unfold clientreg, id_has, hmarks, imarks. rewrite orb_false_r in C. rewrite C. reflexivity.
+  - unfold h_has. sproj. intros L [C|C]; [apply R6; auto | congruence].
+Qed.
+Lemma CR_set_sm_resume_true : forall b g ty rw s, CR b g ty rw s -> CR b g ty rw (set_sm_resume true s).
+Proof. intros b g ty rw s H. cr_dest H. cr_split; auto. unfold h_has. sproj. intros; discriminate. Qed.
+Lemma CR_set_sm_enabled_false : forall b g ty rw s, CR b g ty rw s -> CR b g ty rw (set_sm_enabled false s).
+Proof. intros b g ty rw s H. cr_dest H. cr_split; auto. sproj. intros; discriminate. Qed.
+Lemma CR_set_sm_enabled_true : forall b g ty rw s, (g_bound g = true \/ g_resumed g = true) -> CR b g ty rw s -> CR b g ty rw (set_sm_enabled true s).
+Proof. intros b g ty rw s B H. cr_dest H. cr_split; auto. Qed.
+Lemma CR_set_st_disc : forall b g ty rw s, CR b g ty rw s -> CR b g ty rw (set_st Disconnected s).
+Proof. intros b g ty rw s H. cr_dest H. cr_split; auto; unfold live; sproj; intros; discriminate. Qed.
+Lemma CR_dead_sm : forall b g ty rw s, live s = false -> CR b g ty rw s -> CR b g ty rw (reset_sm_for_reconnect s).
+Proof.
+  intros b g ty rw s L H. cr_dest H.
+  assert (E1 : handlers (reset_sm_for_reconnect s) = handlers s) by (unfold reset_sm_for_reconnect; cases; reflexivity).
+  assert (E2 : idhandlers (reset_sm_for_reconnect s) = idhandlers s) by (unfold reset_sm_for_reconnect; cases; reflexivity).
+  assert (E3 : oh (reset_sm_for_reconnect s) = oh s) by (unfold reset_sm_for_reconnect; cases; reflexivity).
+  assert (E4 : live (reset_sm_for_reconnect s) = live s) by (unfold reset_sm_for_reconnect; cases; reflexivity).
+  assert (E5 : sm_enabled (reset_sm_for_reconnect s) = false) by (unfold reset_sm_for_reconnect; cases; reflexivity).
+  cr_split; unfold postauth, clientreg, h_has, id_has, hmarks, imarks in *; rewrite ?E1, ?E2, ?E3, ?E4, ?E5, ?L; auto; intros; discriminate.
+Qed.
+#[export] Hint Resolve CR_set_sm_resume_true CR_set_sm_enabled_false CR_set_st_disc : crdb.
+Lemma CR_conn_disconnect : forall b g ty rw s, CR b g ty rw s -> CR b g ty rw (fst (conn_disconnect s)).
+Proof.
+  intros b g ty rw s H. name_result. unfold conn_disconnect, ret. cases; leaf; eauto 10 with crdb;
+    repeat apply CR_upg; (apply CR_dead_sm; [reflexivity | eauto 10 with crdb]).
+Qed.
+#[export] Hint Resolve CR_conn_disconnect : crdb.
+Lemma CR_q_append : forall b g ty rw w u sm s, CR b g ty rw s -> CR b g ty rw (q_append w u sm s).
+Proof. intros; unfold q_append; cases; eauto 10 with crdb. Qed.
+#[export] Hint Resolve CR_q_append : crdb.
+Lemma CR_send_gated : forall b g ty rw w u sm s, CR b g ty rw s -> CR b g ty rw (send_gated w u sm s).
+Proof. intros; unfold send_gated, ret; cases; leaf; eauto 30 with crdb. Qed.
+#[export] Hint Resolve CR_send_gated : crdb.
+Lemma CR_send_raw_m : forall b g ty rw w u sm s, CR b g ty rw s -> CR b g ty rw (send_raw_m w u sm s).
+Proof. intros; unfold send_raw_m, ret; cases; leaf; eauto 30 with crdb. Qed.
+#[export] Hint Resolve CR_send_raw_m : crdb.
+Lemma CR_timed_add : forall b g ty rw k n s, CR b g ty rw s -> CR b g ty rw (timed_add k n s).
+Proof. intros; unfold timed_add, ret; cases; leaf; eauto 30 with crdb. Qed.
+#[export] Hint Resolve CR_timed_add : crdb.
+Lemma CR_timed_del : forall b g ty rw k s, CR b g ty rw s -> CR b g ty rw (timed_del k s).
+Proof. intros; unfold timed_del, ret; cases; leaf; eauto 30 with crdb. Qed.
+#[export] Hint Resolve CR_timed_del : crdb.
+Lemma CR_timed_reset_all : forall b g ty rw n s, CR b g ty rw s -> CR b g ty rw (timed_reset_all n s).
+Proof. intros; unfold timed_reset_all, ret; cases; leaf; eauto 30 with crdb. Qed.
+#[export] Hint Resolve CR_timed_reset_all : crdb.
+Lemma CR_timed_set_stamp : forall b g ty rw k n s, CR b g ty rw s -> CR b g ty rw (timed_set_stamp k n s).
+Proof. intros; unfold timed_set_stamp, ret; cases; leaf; eauto 30 with crdb. Qed.
+#[export] Hint Resolve CR_timed_set_stamp : crdb.
+Lemma CR_sm_queue_cleanup : forall b g ty rw h s, CR b g ty rw s -> CR b g ty rw (sm_queue_cleanup h s).
+Proof. intros; unfold sm_queue_cleanup, ret; cases; leaf; eauto 30 with crdb. Qed.
+#[export] Hint Resolve CR_sm_queue_cleanup : crdb.
+Lemma CR_xmpp_disconnect : forall b g ty rw n s, CR b g ty rw s -> CR b g ty rw (xmpp_disconnect n s).
+Proof. intros; unfold xmpp_disconnect, ret; cases; leaf; eauto 30 with crdb. Qed.
+#[export] Hint Resolve CR_xmpp_disconnect : crdb.
+Lemma CR_conn_open_stream : forall b g ty rw s, CR b g ty rw s -> CR b g ty rw (conn_open_stream s).
+Proof. intros; unfold conn_open_stream, ret; cases; leaf; eauto 30 with crdb. Qed.
+#[export] Hint Resolve CR_conn_open_stream : crdb.
+Lemma CR_conn_tls_start : forall b g ty rw s, CR b g ty rw s -> CR b g ty rw (fst (fst (conn_tls_start s))).
+Proof. intros; name_result; unfold conn_tls_start, ret; cases; leaf; eauto 30 with crdb. Qed.
+#[export] Hint Resolve CR_conn_tls_start : crdb.
+Lemma CR_stream_negotiation_success : forall b g ty rw s, CR b g ty rw s -> CR b g ty rw (fst (stream_negotiation_success s)).
+Proof. intros; name_result; unfold stream_negotiation_success, ret; cases; leaf; eauto 30 with crdb. Qed.
+#[export] Hint Resolve CR_stream_negotiation_success : crdb.
+Lemma CR_note_rx : forall b g ty rw e s, CR b g ty rw s -> CR b g ty rw (note_rx e s).
+Proof. intros; unfold note_rx; cbv zeta; eauto with crdb. Qed.
+#[export] Hint Resolve CR_note_rx : crdb.
+Lemma CR_sm_handle : forall b g ty rw e s, CR b g ty rw s -> CR b g ty rw (sm_handle e s).
+Proof. intros; unfold sm_handle, ret; cases; leaf; eauto 30 with crdb. Qed.
+#[export] Hint Resolve CR_sm_handle : crdb.
+Lemma CR_stream_end : forall b g ty rw s, CR b g ty rw s -> CR b g ty rw (fst (stream_end s)).
+Proof. intros; name_result; unfold stream_end, ret; cases; leaf; eauto 30 with crdb. Qed.
+#[export] Hint Resolve CR_stream_end : crdb.
+Lemma CR_connect_next : forall b g ty rw n s, CR b g ty rw s -> CR b g ty rw (fst (fst (connect_next n s))).
+Proof. intros; name_result; unfold connect_next; destruct (sock_connect (cands s)) as [oo [[k r]|]]; leaf; eauto 20 with crdb. Qed.
+#[export] Hint Resolve CR_connect_next : crdb.
+Lemma CR_sm_queue_resend : forall b g ty rw s, CR b g ty rw s -> CR b g ty rw (sm_queue_resend s).
+Proof. intros; unfold sm_queue_resend; apply fold_left_inv; eauto with crdb. Qed.
+#[export] Hint Resolve CR_sm_queue_resend : crdb.
+Ltac okh_tac := refine (conj _ (conj _ (conj _ _))); intros; first [discriminate | assumption | auto].
+Ltac oki_tac := refine (conj _ (conj _ _)); intros; first [discriminate | assumption | auto].
+Ltac okr_tac := refine (conj _ (conj _ (conj _ _))); intros; first [discriminate | assumption | auto].
+#[export] Hint Extern 1 (CR _ _ _ _ (h_add _ _)) => (apply CR_h_add; [okh_tac | ]) : crdb.
+#[export] Hint Extern 1 (CR _ _ _ _ (id_add _ _)) => (apply CR_id_add; [oki_tac | ]) : crdb.
+#[export] Hint Extern 1 (CR _ _ _ _ (prepare_reset _ _)) => (apply CR_prepare_reset; [okr_tac | ]) : crdb.
+
+Section CRclient.
+Variables (b : bool) (g : ghost) (ty : ctype) (rw : bool).
+Hypothesis TC : isclient ty rw.
+Lemma CR_auth_legacy : forall n s, CR b g ty rw s -> CR b g ty rw (auth_legacy n s).
+Proof. intros; unfold auth_legacy; cases; eauto 10 with crdb. Qed.
+Lemma CR_auth : forall fuel n s, CR b g ty rw s -> CR b g ty rw (fst (auth fuel n s)).
+Proof. induction fuel; intros; name_result; cbn [auth]; unfold ret; cases; leaf; eauto 20 using CR_auth_legacy with crdb. Qed.
+Lemma CR_sasl_result : forall n e s, (e_name e = NmSuccess -> g_auth_ok g = true) -> CR b g ty rw s -> CR b g ty rw (fst (sasl_result n e s)).
+Proof.
+  intros n e s A H. name_result. unfold sasl_result, ret. destruct (e_name e) eqn:E; leaf; eauto 10 using CR_auth with crdb.
+  specialize (A eq_refl). cases; eauto 10 with crdb.
+Qed.
+Section CRauth.
+Hypothesis A : g_auth_ok g = true.
+Lemma CR_do_bind : forall n hb s, CR b g ty rw s -> CR b g ty rw (fst (do_bind n hb s)).
+Proof. intros; name_result; unfold do_bind, ret; cases; leaf; eauto 10 with crdb. Qed.
+Lemma CR_features_sasl : forall n e s, CR b g ty rw s -> CR b g ty rw (fst (features_sasl n e s)).
+Proof.
+  intros n e s H. name_result. unfold features_sasl, ret. cases; leaf.
+  all: match goal with
+       | |- CR _ _ _ _ (h_add HSm _) =>
+           apply CR_h_add; [refine (conj _ (conj _ (conj _ _))); intros; auto; try discriminate;
+                            exfalso; match goal with X : sm_resume _ = false |- _ => revert X; unfold send_gated, q_append; cases; sproj; discriminate end
+                           | eauto 10 with crdb]
+       | |- CR _ _ _ _ (fst (do_bind _ _ _)) => apply CR_do_bind; eauto 10 with crdb
+       | _ => eauto 10 with crdb
+       end.
+Qed.
+Section CRbound.
+Hypothesis Bd' : g_bound g = true.
+Lemma CR_session_start : forall n s, CR b g ty rw s -> CR b g ty rw (session_start n s).
+Proof. intros; unfold session_start; eauto 10 with crdb. Qed.
+Lemma CR_sm_enable : forall s, CR b g ty rw s -> CR b g ty rw (sm_enable s).
+Proof. intros; unfold sm_enable; cbv zeta. apply CR_set_sm_enabled_true; [left; exact Bd' | eauto 10 with crdb]. Qed.
+End CRbound.
+End CRauth.
+End CRclient.
+
+Lemma CR_weaken : forall b g ty rw s, CR b g ty rw s -> CR false g ty rw s.
+Proof. intros b g ty rw s H. cr_dest H. cr_split; auto. intros; discriminate. Qed.
+Lemma CR_strengthen : forall g ty rw s, h_has HSm s = false -> CR false g ty rw s -> CR true g ty rw s.
+Proof. intros g ty rw s N H. cr_dest H. cr_split; auto. intros _ _ X. congruence. Qed.
+Lemma CR_set_sm_resume_false : forall g ty rw v s, CR false g ty rw s -> CR false g ty rw (set_sm_resume v s).
+Proof. intros g ty rw v s H. cr_dest H. cr_split; auto. intros; discriminate. Qed.
+
+(* what the dispatched element told the observer *)
+Definition Nx (e : elem) (g : ghost) : Prop :=
+  (e_ns e = NsSasl -> e_name e = NmSuccess -> g_auth_ok g = true) /\
+  (e_id e = IdBind -> e_type e = TyResult -> g_bound g = true) /\
+  (e_id e = IdAuth -> e_type e = TyResult -> e_name e = NmIq -> g_legacy_ok g = true) /\
+  (e_ns e = NsSm -> e_name e = NmResumed -> g_resumed g = true) /\
+  (e_name e = NmHandshake -> g_hs_ok g = true).
+Lemma Nx_mono : forall e g g', GFr g g' -> Nx e g -> Nx e g'.
+Proof. intros e g g' F (A & B & C & D & E). repeat split; intros; apply F; auto. Qed.
+Lemma note_rx_noted : forall e s, Nx e (gh (note_rx e s)).
+Proof.
+  intros e s. unfold note_rx. cbv zeta. sproj.
+  refine (conj _ (conj _ (conj _ (conj _ _)))).
+  - intros N M. rewrite N, M. cbn [ns_eqb ename_eqb andb]. cases; sproj; reflexivity.
+  - intros N M. rewrite N, M. cases; sproj; reflexivity.
+  - intros N M K. rewrite N, M, K. cbn [ename_eqb]. cases; sproj; reflexivity.
+  - intros N M. rewrite N, M. cbn [ns_eqb ename_eqb andb]. cases; sproj; reflexivity.
+  - intros M. rewrite M. cbn [ename_eqb]. cases; sproj; reflexivity.
+Qed.
+
+Definition is_saslh (k : hkind) : bool :=
+  match k with HSaslResult _ | HDigestChallenge | HDigestRspauth | HScramChallenge _ _ => true | _ => false end.
+Lemma filter_sasl : forall k e, is_saslh k = true -> filter_match k e = true -> e_ns e = NsSasl.
+Proof.
+  intros k e K. destruct k; try discriminate; unfold filter_match;
+    match goal with |- context [hfilter ?k] => let v := eval vm_compute in (hfilter k) in change (hfilter k) with v end;
+    intros H; apply andb_prop in H; destruct H as [A _]; destruct (e_ns e); try discriminate; reflexivity.
+Qed.
+Lemma filter_sm : forall e, filter_match HSm e = true -> e_ns e = NsSm.
+Proof.
+  intros e. unfold filter_match.
+  match goal with |- context [hfilter ?k] => let v := eval vm_compute in (hfilter k) in change (hfilter k) with v end.
+  intros H; apply andb_prop in H; destruct H as [A _]; destruct (e_ns e); try discriminate; reflexivity.
+Qed.
+Lemma clientreg_main : forall k s, is_main k = true -> h_has k s = true -> clientreg s = true.
+Proof.
+  intros k s M H. pose proof (hmarks_pos k s M H). unfold clientreg. destruct (Nat.eqb (hmarks s) 0) eqn:E; [apply Nat.eqb_eq in E; lia | reflexivity].
+Qed.
+Lemma postauth_pa : forall k s, is_pa k = true -> h_has k s = true -> postauth s = true.
+Proof.
+  intros k s M. unfold postauth, h_has. intros H.
+  assert (existsb (fun x => is_pa (fst x)) (handlers s) = true) as ->; [|reflexivity].
+  induction (handlers s) as [|x l IH]; cbn in *; [discriminate|]. destruct (hkind_eqb k (fst x)) eqn:E.
+  - apply hkind_eqb_eq in E. rewrite <- E, M. reflexivity.
+  - rewrite (IH H). apply orb_true_r.
+Qed.
+
+(* the body of a stanza handler on a live connection (every handler but _handle_sm) *)
+Lemma CR_call_handler : forall b g ty rw k n e s, hkind_eqb k HSm = false ->
+  live s = true -> h_has k s = true -> filter_match k e = true -> Nx e g -> CR b g ty rw s ->
+  CR b g ty rw (fst (fst (call_handler k n e s))).
+Proof.
+  intros b g ty rw k n e s NS L Hk Fm (N1 & N2 & N3 & N4 & N5) H. pose proof H as H'. cr_dest H'.
+  assert (TC : is_main k = true -> isclient ty rw) by (intros M; apply R5; [exact L | exact (clientreg_main k s M Hk)]).
+  assert (A : is_pa k = true -> g_auth_ok g = true) by (intros M; apply R1; exact (postauth_pa k s M Hk)).
+  assert (SA : is_saslh k = true -> e_name e = NmSuccess -> g_auth_ok g = true) by (intros M; apply N1; exact (filter_sasl k e M Fm)).
+  destruct k; try discriminate; cbn [is_main is_pa is_saslh] in *; try specialize (TC eq_refl); try specialize (A eq_refl); try specialize (SA eq_refl).
+  - cbn. exact H.
+  - cbn. eauto with crdb.
+  - name_result. unfold call_handler. cbv zeta.
+    match goal with |- context [auth 1 n ?x] => pose proof (CR_auth b g ty rw TC 1 n x) as Q; destruct (auth 1 n x) end.
+    leaf. apply Q. unfold timed_del. cases; eauto 10 with crdb.
+  - name_result. unfold call_handler. destruct (e_name e); leaf; auto.
+    pose proof (CR_conn_tls_start b g ty rw s H) as Q. destruct (conn_tls_start s) as [[s1 o1] ok]. cbn [fst] in Q.
+    destruct ok; leaf; cbn [fst]; eauto 10 with crdb.
+  - name_result. unfold call_handler. pose proof (CR_sasl_result b g ty rw TC n e s SA H) as Q. destruct (sasl_result n e s). leaf. exact Q.
+  - name_result. unfold call_handler. pose proof (CR_sasl_result b g ty rw TC n e s SA H) as Q.
+    destruct (e_name e); try (destruct (sasl_result n e s); leaf; exact Q). cases; leaf; eauto 10 with crdb.
+  - name_result. unfold call_handler. pose proof (CR_sasl_result b g ty rw TC n e s SA H) as Q.
+    destruct (e_name e); try (destruct (sasl_result n e s); leaf; exact Q). leaf; eauto 10 with crdb.
+  - name_result. unfold call_handler. pose proof (CR_sasl_result b g ty rw TC n e s SA H) as Q.
+    destruct (e_name e); try (destruct (sasl_result n e s); leaf; exact Q). cases; leaf; eauto 10 with crdb.
+  - name_result. unfold call_handler. pose proof (CR_features_sasl b g ty rw TC A n e s H) as Q. destruct (features_sasl n e s). leaf. exact Q.
+  - name_result. unfold call_handler. cbv zeta.
+    match goal with |- context [comp_supported ?x] => set (s1 := x) end.
+    assert (H1 : CR b g ty rw s1) by (unfold s1, timed_del; cases; eauto 10 with crdb). clearbody s1.
+    destruct (comp_supported s1); leaf; [eauto 10 with crdb|].
+    pose proof (CR_features_sasl b g ty rw TC A n e s1 H1) as Q. destruct (features_sasl n e s1). leaf. exact Q.
+  - name_result. unfold call_handler. cases; leaf; eauto 10 with crdb.
+  - name_result. unfold call_handler, ret. cases; leaf; eauto 10 with crdb.
+Qed.
+
+Lemma CR_HSm : forall g ty rw n e s, live s = true -> h_has HSm s = true -> filter_match HSm e = true -> Nx e g -> CR true g ty rw s ->
+  CR true g ty rw (if snd (call_handler HSm n e s) then fst (fst (call_handler HSm n e s)) else h_del HSm (fst (fst (call_handler HSm n e s)))).
+Proof.
+  intros g ty rw n e s L Hk Fm (N1 & N2 & N3 & N4 & N5) H. pose proof H as H'. cr_dest H'.
+  assert (TC : isclient ty rw) by (apply R5; [exact L | exact (clientreg_main HSm s eq_refl Hk)]).
+  assert (A : g_auth_ok g = true) by (apply R1; exact (postauth_pa HSm s eq_refl Hk)).
+  pose proof (filter_sm e Fm) as Ns. apply CR_weaken in H.
+  pose proof (CR_do_bind false g ty rw TC A) as Hdb.
+  assert (Hen : forall x, e_name e = NmResumed -> CR false g ty rw x -> CR false g ty rw (set_sm_enabled true x))
+    by (intros; apply CR_set_sm_enabled_true; [right; apply N4; auto | auto]).
+  pose proof (CR_set_sm_resume_false g ty rw) as Hsr.
+  assert (Q : CR false g ty rw (fst (fst (call_handler HSm n e s))) /\ snd (call_handler HSm n e s) = false).
+  { name_result. unfold call_handler, ret. cases; leaf; (split; [|reflexivity]); eauto 25 with crdb. }
+  destruct Q as [Q K].
+  destruct (call_handler HSm n e s) as [[s1 o1] keep]. cbn [fst snd] in *.
+  subst keep.
+  apply CR_strengthen; [rewrite h_has_h_del, hkind_eqb_refl; apply andb_false_r | apply CR_h_del; exact Q].
+Qed.
+
+(* ------------------------------------------------------------------ id handlers, open handlers *)
+Lemma postauth_id : forall k s, is_main_id k = true -> id_has k s = true -> postauth s = true.
+Proof. intros k s M H. unfold postauth. destruct k; try discriminate; rewrite H, ?orb_true_r; reflexivity. Qed.
+Lemma clientreg_id : forall k s, id_has k s = true -> clientreg s = true.
+Proof.
+  intros k s H. unfold clientreg. destruct (is_main_id k) eqn:M.
+  - pose proof (imarks_pos k s M H). destruct (Nat.eqb (imarks s) 0) eqn:E; [apply Nat.eqb_eq in E; lia | cbn; rewrite orb_true_r; reflexivity].
+  - destruct k; try discriminate. rewrite H, ?orb_true_r. reflexivity.
+Qed.
+Lemma CR_call_id_handler : forall g ty rw k n e s, live s = true -> id_has k s = true -> idk_of (e_id e) = Some k -> Nx e g ->
+  CR true g ty rw s -> CR true g ty rw (fst (call_id_handler k n e s)).
+Proof.
+  intros g ty rw k n e s L Hk Ik (N1 & N2 & N3 & N4 & N5) H. pose proof H as H'. cr_dest H'.
+  assert (TC : isclient ty rw) by (apply R5; [exact L | exact (clientreg_id k s Hk)]).
+  destruct k.
+  - assert (A : g_auth_ok g = true) by (apply R1; exact (postauth_id IKBind s eq_refl Hk)).
+    assert (Ib : e_id e = IdBind) by (destruct (e_id e); try discriminate; reflexivity).
+    name_result. unfold call_id_handler, ret. destruct (e_type e) eqn:Ty; leaf; eauto 10 with crdb.
+    specialize (N2 Ib eq_refl).
+    pose proof (CR_session_start true g ty rw TC A N2 n) as Hss. pose proof (CR_sm_enable true g ty rw TC A N2) as Hse.
+    cases; eauto 10 with crdb.
+  - assert (A : g_auth_ok g = true) by (apply R1; exact (postauth_id IKSession s eq_refl Hk)).
+    specialize (R2 Hk). pose proof (CR_sm_enable true g ty rw TC A R2) as Hse.
+    name_result. unfold call_id_handler, ret. cases; leaf; eauto 10 with crdb.
+  - name_result. unfold call_id_handler, ret. cases; leaf; eauto 10 with crdb.
+Qed.
+Lemma CR_open_handler : forall g ty rw n s, live s = true -> CR true g ty rw s -> CR true g ty rw (fst (open_handler n s)).
+Proof.
+  intros g ty rw n s L H. pose proof H as H'. cr_dest H'.
+  unfold open_handler, ret. destruct (oh s) eqn:O.
+  all: try (assert (TC : isclient ty rw) by (apply R5; [exact L | unfold clientreg; rewrite O; cbn; rewrite orb_true_r; reflexivity])).
+  all: try (assert (A : g_auth_ok g = true) by (apply R1; unfold postauth; rewrite O; cbn; rewrite orb_true_r; reflexivity)).
+  all: try (assert (IC : iscomp ty rw) by (apply R6; auto)).
+  all: name_result; cases; leaf; eauto 10 with crdb.
+Qed.
+Lemma CR_stream_start : forall g ty rw n a b s, live s = true -> CR true g ty rw s -> CR true g ty rw (fst (stream_start n a b s)).
+Proof.
+  intros g ty rw n a b s L H. name_result. unfold stream_start. cases; leaf; [apply CR_open_handler; [exact L|] | ]; eauto 10 with crdb.
+Qed.
+
+(* ================================================================== NK: "connected" is justified and reported once *)
+Definition is_oc (x : out) : bool := match x with OConnect => true | _ => false end.
+Definition count_oc (o : list out) : nat := List.length (filter is_oc o).
+Definition cjt (g : ghost) (ty : ctype) (rw : bool) : bool :=
+  if rw then g_raw_open g
+  else match ty with
+       | TClient => (g_auth_ok g && (g_bound g || g_resumed g)) || g_legacy_ok g
+       | TComponent => g_hs_ok g
+       end.
+Lemma cjt_mono : forall g g' ty rw, GFr g g' -> cjt g ty rw = true -> cjt g' ty rw = true.
+Proof.
+  intros g g' ty rw F. unfold cjt. destruct rw; [apply F|]. destruct ty; [|apply F].
+  intros H. apply orb_prop in H. destruct H as [H|H]; [|rewrite (gfr_legacy_ok _ _ F H); apply orb_true_r].
+  apply andb_prop in H. destruct H as [A B]. rewrite (gfr_auth_ok _ _ F A). apply orb_prop in B.
+  destruct B as [B|B]; [rewrite (gfr_bound _ _ F B) | rewrite (gfr_resumed _ _ F B), orb_true_r]; reflexivity.
+Qed.
+Lemma count_oc_app : forall a b, count_oc (a ++ b) = (count_oc a + count_oc b)%nat.
+Proof. intros; unfold count_oc. rewrite filter_app, app_length. reflexivity. Qed.
+
+Record NK (g : ghost) (ty : ctype) (rw : bool) (c0 : nat) (s : state) (o : list out) : Prop := mkNK {
+  nk_nu : g_conn_unjust (gh s) = false;
+  nk_gfr : GFr g (gh s);
+  nk_typ : typ s = ty;
+  nk_raw : is_raw s = rw;
+  nk_c0 : g_connects (gh s) = c0;
+  nk_cnt : rw = false -> (c0 + count_oc o <= 1)%nat /\ ((c0 + count_oc o = 1)%nat -> neg_done s = true \/ st s = Disconnected)
+}.
+Lemma NK_state : forall g ty rw c0 s o s', NK g ty rw c0 s o -> Fr s s' -> g_conn_unjust (gh s') = false ->
+  (neg_done s = true -> neg_done s' = true \/ st s' = Disconnected) -> NK g ty rw c0 s' o.
+Proof.
+  intros g ty rw c0 s o s' H F U N. constructor; auto.
+  - exact (GFr_trans _ _ _ (nk_gfr _ _ _ _ _ _ H) (fr_gh _ _ F)).
+  - rewrite (fr_typ _ _ F). apply (nk_typ _ _ _ _ _ _ H).
+  - rewrite (fr_is_raw _ _ F). apply (nk_raw _ _ _ _ _ _ H).
+  - rewrite (gfr_connects _ _ (fr_gh _ _ F)). apply (nk_c0 _ _ _ _ _ _ H).
+  - intros R. destruct (nk_cnt _ _ _ _ _ _ H R) as [A B]. split; auto. intros C. destruct (B C) as [D|D]; auto.
+    right. destruct (fr_st _ _ F) as [E|E]; congruence.
+Qed.
+Lemma NK_nil : forall g ty rw c0 s o, NK g ty rw c0 s o -> NK g ty rw c0 s (o ++ []).
+Proof. intros; rewrite app_nil_r; auto. Qed.
+Lemma NK_assoc : forall g ty rw c0 s o o1 o2, NK g ty rw c0 s ((o ++ o1) ++ o2) -> NK g ty rw c0 s (o ++ (o1 ++ o2)).
+Proof. intros; rewrite app_assoc; auto. Qed.
+Lemma NK_noc : forall g ty rw c0 s o o', NK g ty rw c0 s o -> count_oc o' = 0%nat -> NK g ty rw c0 s (o ++ o').
+Proof.
+  intros g ty rw c0 s o o' H Z. destruct H. constructor; auto. rewrite count_oc_app, Z, Nat.add_0_r. exact nk_cnt0.
+Qed.
+#[export] Hint Resolve NK_nil NK_assoc : nkdb.
+#[export] Hint Extern 3 (NK _ _ _ _ _ (_ ++ _)) => (apply NK_noc; [ | reflexivity]) : nkdb.
+Lemma NK_set_tls_verdicts : forall v g ty rw c0 s o, NK g ty rw c0 s o -> NK g ty rw c0 (set_tls_verdicts v s) o.
+Proof. intros v g ty rw c0 s o H; eapply NK_state; [eassumption | apply Fr_set_tls_verdicts; apply Fr_refl | destruct s; exact (nk_nu _ _ _ _ _ _ H) | destruct s; cbn; auto]. Qed.
+#[export] Hint Resolve NK_set_tls_verdicts : nkdb.
+Lemma NK_set_next_cands : forall v g ty rw c0 s o, NK g ty rw c0 s o -> NK g ty rw c0 (set_next_cands v s) o.
+Proof. intros v g ty rw c0 s o H; eapply NK_state; [eassumption | apply Fr_set_next_cands; apply Fr_refl | destruct s; exact (nk_nu _ _ _ _ _ _ H) | destruct s; cbn; auto]. Qed.
+#[export] Hint Resolve NK_set_next_cands : nkdb.
+Lemma NK_set_cands : forall v g ty rw c0 s o, NK g ty rw c0 s o -> NK g ty rw c0 (set_cands v s) o.
+Proof. intros v g ty rw c0 s o H; eapply NK_state; [eassumption | apply Fr_set_cands; apply Fr_refl | destruct s; exact (nk_nu _ _ _ _ _ _ H) | destruct s; cbn; auto]. Qed.
+#[export] Hint Resolve NK_set_cands : nkdb.
+Lemma NK_set_cur_ep : forall v g ty rw c0 s o, NK g ty rw c0 s o -> NK g ty rw c0 (set_cur_ep v s) o.
+Proof. intros v g ty rw c0 s o H; eapply NK_state; [eassumption | apply Fr_set_cur_ep; apply Fr_refl | destruct s; exact (nk_nu _ _ _ _ _ _ H) | destruct s; cbn; auto]. Qed.
+#[export] Hint Resolve NK_set_cur_ep : nkdb.
+Lemma NK_set_stamp : forall v g ty rw c0 s o, NK g ty rw c0 s o -> NK g ty rw c0 (set_stamp v s) o.
+Proof. intros v g ty rw c0 s o H; eapply NK_state; [eassumption | apply Fr_set_stamp; apply Fr_refl | destruct s; exact (nk_nu _ _ _ _ _ _ H) | destruct s; cbn; auto]. Qed.
+#[export] Hint Resolve NK_set_stamp : nkdb.
+Lemma NK_set_err : forall v g ty rw c0 s o, NK g ty rw c0 s o -> NK g ty rw c0 (set_err v s) o.
+Proof. intros v g ty rw c0 s o H; eapply NK_state; [eassumption | apply Fr_set_err; apply Fr_refl | destruct s; exact (nk_nu _ _ _ _ _ _ H) | destruct s; cbn; auto]. Qed.
+#[export] Hint Resolve NK_set_err : nkdb.
+Lemma NK_set_stream_error : forall v g ty rw c0 s o, NK g ty rw c0 s o -> NK g ty rw c0 (set_stream_error v s) o.
+Proof. intros v g ty rw c0 s o H; eapply NK_state; [eassumption | apply Fr_set_stream_error; apply Fr_refl | destruct s; exact (nk_nu _ _ _ _ _ _ H) | destruct s; cbn; auto]. Qed.
+#[export] Hint Resolve NK_set_stream_error : nkdb.
+Lemma NK_set_tls_present : forall v g ty rw c0 s o, NK g ty rw c0 s o -> NK g ty rw c0 (set_tls_present v s) o.
+Proof. intros v g ty rw c0 s o H; eapply NK_state; [eassumption | apply Fr_set_tls_present; apply Fr_refl | destruct s; exact (nk_nu _ _ _ _ _ _ H) | destruct s; cbn; auto]. Qed.
+#[export] Hint Resolve NK_set_tls_present : nkdb.
+Lemma NK_set_tls_failed : forall v g ty rw c0 s o, NK g ty rw c0 s o -> NK g ty rw c0 (set_tls_failed v s) o.
+Proof. intros v g ty rw c0 s o H; eapply NK_state; [eassumption | apply Fr_set_tls_failed; apply Fr_refl | destruct s; exact (nk_nu _ _ _ _ _ _ H) | destruct s; cbn; auto]. Qed.
+#[export] Hint Resolve NK_set_tls_failed : nkdb.
+Lemma NK_set_tls_support : forall v g ty rw c0 s o, NK g ty rw c0 s o -> NK g ty rw c0 (set_tls_support v s) o.
+Proof. intros v g ty rw c0 s o H; eapply NK_state; [eassumption | apply Fr_set_tls_support; apply Fr_refl | destruct s; exact (nk_nu _ _ _ _ _ _ H) | destruct s; cbn; auto]. Qed.
+#[export] Hint Resolve NK_set_tls_support : nkdb.
+Lemma NK_set_sasl : forall v g ty rw c0 s o, NK g ty rw c0 s o -> NK g ty rw c0 (set_sasl v s) o.
+Proof. intros v g ty rw c0 s o H; eapply NK_state; [eassumption | apply Fr_set_sasl; apply Fr_refl | destruct s; exact (nk_nu _ _ _ _ _ _ H) | destruct s; cbn; auto]. Qed.
+#[export] Hint Resolve NK_set_sasl : nkdb.
+Lemma NK_set_bind_required : forall v g ty rw c0 s o, NK g ty rw c0 s o -> NK g ty rw c0 (set_bind_required v s) o.
+Proof. intros v g ty rw c0 s o H; eapply NK_state; [eassumption | apply Fr_set_bind_required; apply Fr_refl | destruct s; exact (nk_nu _ _ _ _ _ _ H) | destruct s; cbn; auto]. Qed.
+#[export] Hint Resolve NK_set_bind_required : nkdb.
+Lemma NK_set_session_required : forall v g ty rw c0 s o, NK g ty rw c0 s o -> NK g ty rw c0 (set_session_required v s) o.
+Proof. intros v g ty rw c0 s o H; eapply NK_state; [eassumption | apply Fr_set_session_required; apply Fr_refl | destruct s; exact (nk_nu _ _ _ _ _ _ H) | destruct s; cbn; auto]. Qed.
+#[export] Hint Resolve NK_set_session_required : nkdb.
+Lemma NK_set_comp_supported : forall v g ty rw c0 s o, NK g ty rw c0 s o -> NK g ty rw c0 (set_comp_supported v s) o.
+Proof. intros v g ty rw c0 s o H; eapply NK_state; [eassumption | apply Fr_set_comp_supported; apply Fr_refl | destruct s; exact (nk_nu _ _ _ _ _ _ H) | destruct s; cbn; auto]. Qed.
+#[export] Hint Resolve NK_set_comp_supported : nkdb.
+Lemma NK_set_comp_active : forall v g ty rw c0 s o, NK g ty rw c0 s o -> NK g ty rw c0 (set_comp_active v s) o.
+Proof. intros v g ty rw c0 s o H; eapply NK_state; [eassumption | apply Fr_set_comp_active; apply Fr_refl | destruct s; exact (nk_nu _ _ _ _ _ _ H) | destruct s; cbn; auto]. Qed.
+#[export] Hint Resolve NK_set_comp_active : nkdb.
+Lemma NK_set_sm_support : forall v g ty rw c0 s o, NK g ty rw c0 s o -> NK g ty rw c0 (set_sm_support v s) o.
+Proof. intros v g ty rw c0 s o H; eapply NK_state; [eassumption | apply Fr_set_sm_support; apply Fr_refl | destruct s; exact (nk_nu _ _ _ _ _ _ H) | destruct s; cbn; auto]. Qed.
+#[export] Hint Resolve NK_set_sm_support : nkdb.
+Lemma NK_set_sm_enabled : forall v g ty rw c0 s o, NK g ty rw c0 s o -> NK g ty rw c0 (set_sm_enabled v s) o.
+Proof. intros v g ty rw c0 s o H; eapply NK_state; [eassumption | apply Fr_set_sm_enabled; apply Fr_refl | destruct s; exact (nk_nu _ _ _ _ _ _ H) | destruct s; cbn; auto]. Qed.
+#[export] Hint Resolve NK_set_sm_enabled : nkdb.
+Lemma NK_set_sm_can_resume : forall v g ty rw c0 s o, NK g ty rw c0 s o -> NK g ty rw c0 (set_sm_can_resume v s) o.
+Proof. intros v g ty rw c0 s o H; eapply NK_state; [eassumption | apply Fr_set_sm_can_resume; apply Fr_refl | destruct s; exact (nk_nu _ _ _ _ _ _ H) | destruct s; cbn; auto]. Qed.
+#[export] Hint Resolve NK_set_sm_can_resume : nkdb.
+Lemma NK_set_sm_resume : forall v g ty rw c0 s o, NK g ty rw c0 s o -> NK g ty rw c0 (set_sm_resume v s) o.
+Proof. intros v g ty rw c0 s o H; eapply NK_state; [eassumption | apply Fr_set_sm_resume; apply Fr_refl | destruct s; exact (nk_nu _ _ _ _ _ _ H) | destruct s; cbn; auto]. Qed.
+#[export] Hint Resolve NK_set_sm_resume : nkdb.
+Lemma NK_set_sm_dont_request : forall v g ty rw c0 s o, NK g ty rw c0 s o -> NK g ty rw c0 (set_sm_dont_request v s) o.
+Proof. intros v g ty rw c0 s o H; eapply NK_state; [eassumption | apply Fr_set_sm_dont_request; apply Fr_refl | destruct s; exact (nk_nu _ _ _ _ _ _ H) | destruct s; cbn; auto]. Qed.
+#[export] Hint Resolve NK_set_sm_dont_request : nkdb.
+Lemma NK_set_sm_has_previd : forall v g ty rw c0 s o, NK g ty rw c0 s o -> NK g ty rw c0 (set_sm_has_previd v s) o.
+Proof. intros v g ty rw c0 s o H; eapply NK_state; [eassumption | apply Fr_set_sm_has_previd; apply Fr_refl | destruct s; exact (nk_nu _ _ _ _ _ _ H) | destruct s; cbn; auto]. Qed.
+#[export] Hint Resolve NK_set_sm_has_previd : nkdb.
+Lemma NK_set_sm_has_id : forall v g ty rw c0 s o, NK g ty rw c0 s o -> NK g ty rw c0 (set_sm_has_id v s) o.
+Proof. intros v g ty rw c0 s o H; eapply NK_state; [eassumption | apply Fr_set_sm_has_id; apply Fr_refl | destruct s; exact (nk_nu _ _ _ _ _ _ H) | destruct s; cbn; auto]. Qed.
+#[export] Hint Resolve NK_set_sm_has_id : nkdb.
+Lemma NK_set_sm_parked : forall v g ty rw c0 s o, NK g ty rw c0 s o -> NK g ty rw c0 (set_sm_parked v s) o.
+Proof. intros v g ty rw c0 s o H; eapply NK_state; [eassumption | apply Fr_set_sm_parked; apply Fr_refl | destruct s; exact (nk_nu _ _ _ _ _ _ H) | destruct s; cbn; auto]. Qed.
+#[export] Hint Resolve NK_set_sm_parked : nkdb.
+Lemma NK_set_sm_r_sent : forall v g ty rw c0 s o, NK g ty rw c0 s o -> NK g ty rw c0 (set_sm_r_sent v s) o.
+Proof. intros v g ty rw c0 s o H; eapply NK_state; [eassumption | apply Fr_set_sm_r_sent; apply Fr_refl | destruct s; exact (nk_nu _ _ _ _ _ _ H) | destruct s; cbn; auto]. Qed.
+#[export] Hint Resolve NK_set_sm_r_sent : nkdb.
+Lemma NK_set_sm_bind_saved : forall v g ty rw c0 s o, NK g ty rw c0 s o -> NK g ty rw c0 (set_sm_bind_saved v s) o.
+Proof. intros v g ty rw c0 s o H; eapply NK_state; [eassumption | apply Fr_set_sm_bind_saved; apply Fr_refl | destruct s; exact (nk_nu _ _ _ _ _ _ H) | destruct s; cbn; auto]. Qed.
+#[export] Hint Resolve NK_set_sm_bind_saved : nkdb.
+Lemma NK_set_bound_jid : forall v g ty rw c0 s o, NK g ty rw c0 s o -> NK g ty rw c0 (set_bound_jid v s) o.
+Proof. intros v g ty rw c0 s o H; eapply NK_state; [eassumption | apply Fr_set_bound_jid; apply Fr_refl | destruct s; exact (nk_nu _ _ _ _ _ _ H) | destruct s; cbn; auto]. Qed.
+#[export] Hint Resolve NK_set_bound_jid : nkdb.
+Lemma NK_set_stream_id : forall v g ty rw c0 s o, NK g ty rw c0 s o -> NK g ty rw c0 (set_stream_id v s) o.
+Proof. intros v g ty rw c0 s o H; eapply NK_state; [eassumption | apply Fr_set_stream_id; apply Fr_refl | destruct s; exact (nk_nu _ _ _ _ _ _ H) | destruct s; cbn; auto]. Qed.
+#[export] Hint Resolve NK_set_stream_id : nkdb.
+Lemma NK_set_oh : forall v g ty rw c0 s o, NK g ty rw c0 s o -> NK g ty rw c0 (set_oh v s) o.
+Proof. intros v g ty rw c0 s o H; eapply NK_state; [eassumption | apply Fr_set_oh; apply Fr_refl | destruct s; exact (nk_nu _ _ _ _ _ _ H) | destruct s; cbn; auto]. Qed.
+#[export] Hint Resolve NK_set_oh : nkdb.
+Lemma NK_set_ps : forall v g ty rw c0 s o, NK g ty rw c0 s o -> NK g ty rw c0 (set_ps v s) o.
+Proof. intros v g ty rw c0 s o H; eapply NK_state; [eassumption | apply Fr_set_ps; apply Fr_refl | destruct s; exact (nk_nu _ _ _ _ _ _ H) | destruct s; cbn; auto]. Qed.
+#[export] Hint Resolve NK_set_ps : nkdb.
+Lemma NK_set_handlers : forall v g ty rw c0 s o, NK g ty rw c0 s o -> NK g ty rw c0 (set_handlers v s) o.
+Proof. intros v g ty rw c0 s o H; eapply NK_state; [eassumption | apply Fr_set_handlers; apply Fr_refl | destruct s; exact (nk_nu _ _ _ _ _ _ H) | destruct s; cbn; auto]. Qed.
+#[export] Hint Resolve NK_set_handlers : nkdb.
+Lemma NK_set_idhandlers : forall v g ty rw c0 s o, NK g ty rw c0 s o -> NK g ty rw c0 (set_idhandlers v s) o.
+Proof. intros v g ty rw c0 s o H; eapply NK_state; [eassumption | apply Fr_set_idhandlers; apply Fr_refl | destruct s; exact (nk_nu _ _ _ _ _ _ H) | destruct s; cbn; auto]. Qed.
+#[export] Hint Resolve NK_set_idhandlers : nkdb.
+Lemma NK_set_timed : forall v g ty rw c0 s o, NK g ty rw c0 s o -> NK g ty rw c0 (set_timed v s) o.
+Proof. intros v g ty rw c0 s o H; eapply NK_state; [eassumption | apply Fr_set_timed; apply Fr_refl | destruct s; exact (nk_nu _ _ _ _ _ _ H) | destruct s; cbn; auto]. Qed.
+#[export] Hint Resolve NK_set_timed : nkdb.
+Lemma NK_set_rxq : forall v g ty rw c0 s o, NK g ty rw c0 s o -> NK g ty rw c0 (set_rxq v s) o.
+Proof. intros v g ty rw c0 s o H; eapply NK_state; [eassumption | apply Fr_set_rxq; apply Fr_refl | destruct s; exact (nk_nu _ _ _ _ _ _ H) | destruct s; cbn; auto]. Qed.
+#[export] Hint Resolve NK_set_rxq : nkdb.
+Lemma NK_set_smq : forall v g ty rw c0 s o, NK g ty rw c0 s o -> NK g ty rw c0 (set_smq v s) o.
+Proof. intros v g ty rw c0 s o H; eapply NK_state; [eassumption | apply Fr_set_smq; apply Fr_refl | destruct s; exact (nk_nu _ _ _ _ _ _ H) | destruct s; cbn; auto]. Qed.
+#[export] Hint Resolve NK_set_smq : nkdb.
+Lemma NK_set_sm_sent : forall v g ty rw c0 s o, NK g ty rw c0 s o -> NK g ty rw c0 (set_sm_sent v s) o.
+Proof. intros v g ty rw c0 s o H; eapply NK_state; [eassumption | apply Fr_set_sm_sent; apply Fr_refl | destruct s; exact (nk_nu _ _ _ _ _ _ H) | destruct s; cbn; auto]. Qed.
+#[export] Hint Resolve NK_set_sm_sent : nkdb.
+Lemma NK_set_scram_serial : forall v g ty rw c0 s o, NK g ty rw c0 s o -> NK g ty rw c0 (set_scram_serial v s) o.
+Proof. intros v g ty rw c0 s o H; eapply NK_state; [eassumption | apply Fr_set_scram_serial; apply Fr_refl | destruct s; exact (nk_nu _ _ _ _ _ _ H) | destruct s; cbn; auto]. Qed.
+#[export] Hint Resolve NK_set_scram_serial : nkdb.
+Lemma NK_set_crashed : forall v g ty rw c0 s o, NK g ty rw c0 s o -> NK g ty rw c0 (set_crashed v s) o.
+Proof. intros v g ty rw c0 s o H; eapply NK_state; [eassumption | apply Fr_set_crashed; apply Fr_refl | destruct s; exact (nk_nu _ _ _ _ _ _ H) | destruct s; cbn; auto]. Qed.
+#[export] Hint Resolve NK_set_crashed : nkdb.
+Lemma NK_set_sendq_app : forall l g ty rw c0 s o, NK g ty rw c0 s o -> NK g ty rw c0 (set_sendq (sendq s ++ l) s) o.
+Proof. intros l g ty rw c0 s o H; eapply NK_state; [eassumption | apply Fr_set_sendq_app; apply Fr_refl | destruct s; exact (nk_nu _ _ _ _ _ _ H) | destruct s; cbn; auto]. Qed.
+Lemma NK_set_st_disc : forall g ty rw c0 s o, NK g ty rw c0 s o -> NK g ty rw c0 (set_st Disconnected s) o.
+Proof. intros g ty rw c0 s o H; eapply NK_state; [eassumption | apply Fr_set_st_disc; apply Fr_refl | destruct s; exact (nk_nu _ _ _ _ _ _ H) | destruct s; cbn; auto]. Qed.
+Lemma NK_set_reset_true : forall g ty rw c0 s o, NK g ty rw c0 s o -> NK g ty rw c0 (set_reset_parser true s) o.
+Proof. intros g ty rw c0 s o H; eapply NK_state; [eassumption | apply Fr_set_reset_true; apply Fr_refl | destruct s; exact (nk_nu _ _ _ _ _ _ H) | destruct s; cbn; auto]. Qed.
+Lemma NK_set_secured_true : forall g ty rw c0 s o, NK g ty rw c0 s o -> NK g ty rw c0 (set_secured true s) o.
+Proof. intros g ty rw c0 s o H; eapply NK_state; [eassumption | apply Fr_set_secured_true; apply Fr_refl | destruct s; exact (nk_nu _ _ _ _ _ _ H) | destruct s; cbn; auto]. Qed.
+Lemma NK_set_neg_done_false_disc : forall g ty rw c0 s o, NK g ty rw c0 s o -> NK g ty rw c0 (set_neg_done false (set_st Disconnected s)) o.
+Proof.
+  intros g ty rw c0 s o H; eapply NK_state; [eassumption | destruct s; Fr_prim | destruct s; exact (nk_nu _ _ _ _ _ _ H) | destruct s; cbn; auto].
+Qed.
+Lemma NK_upg : forall f g ty rw c0 s o, GFr (gh s) (f (gh s)) -> g_conn_unjust (f (gh s)) = g_conn_unjust (gh s) ->
+  NK g ty rw c0 s o -> NK g ty rw c0 (upg f s) o.
+Proof.
+  intros f g ty rw c0 s o G U H; eapply NK_state; [eassumption | apply Fr_upg; [assumption | apply Fr_refl] | | destruct s; cbn; auto].
+  unfold upg. sproj. rewrite U. exact (nk_nu _ _ _ _ _ _ H).
+Qed.
+#[export] Hint Resolve NK_set_sendq_app NK_set_st_disc NK_set_reset_true NK_set_secured_true NK_set_neg_done_false_disc : nkdb.
+Lemma cu_se_bad : forall v g, g_conn_unjust (set_g_se_bad v g) = g_conn_unjust g.
+Proof. intros v []; reflexivity. Qed.
+Lemma cu_stream_start : forall b g, g_conn_unjust ((fun g : ghost => set_g_raw_open (b || g_raw_open g) (set_g_feat_seen false g)) g) = g_conn_unjust g.
+Proof. intros b []; reflexivity. Qed.
+#[export] Hint Extern 1 (NK _ _ _ _ (upg _ _) _) => (apply NK_upg; [eauto with frdb trdb | first [apply cu_se_bad | apply cu_stream_start] | ]) : nkdb.
+Lemma NK_note_rx : forall e g ty rw c0 s o, NK g ty rw c0 s o -> NK g ty rw c0 (note_rx e s) o.
+Proof.
+  intros e g ty rw c0 s o H; eapply NK_state; [eassumption | apply Fr_note_rx; apply Fr_refl | | unfold note_rx; exact (fun h => or_introl h)].
+  pose proof (nk_nu _ _ _ _ _ _ H) as U. unfold note_rx. cbv zeta. sproj. rewrite <- U. cases; reflexivity.
+Qed.
+#[export] Hint Resolve NK_note_rx : nkdb.
+
+(* _stream_negotiation_success: justified, and - unless raw - only on a live connection that has not reported yet *)
+Lemma NK_sns : forall g ty rw c0 s o, cjt g ty rw = true -> (rw = false -> st s <> Disconnected) ->
+  NK g ty rw c0 s o -> NK g ty rw c0 (fst (stream_negotiation_success s)) (o ++ snd (stream_negotiation_success s)).
+Proof.
+  intros g ty rw c0 s o J L H. unfold stream_negotiation_success, ret.
+  destruct (negb (is_raw s) && neg_done s) eqn:G; cbn [fst snd]; [apply NK_nil; exact H|].
+  assert (CJ : connect_justified s = true).
+  { pose proof (cjt_mono _ _ ty rw (nk_gfr _ _ _ _ _ _ H) J) as J'. unfold connect_justified, cjt in *.
+    rewrite (nk_raw _ _ _ _ _ _ H), (nk_typ _ _ _ _ _ _ H). exact J'. }
+  rewrite CJ. destruct H. constructor; auto.
+  intros R. destruct (nk_cnt0 R) as [A B]. rewrite count_oc_app. cbn [count_oc filter is_oc List.length].
+  rewrite nk_raw0, R in G. cbn [negb andb] in G.
+  assert (Z : (c0 + count_oc o = 0)%nat).
+  { destruct (Nat.eq_dec (c0 + count_oc o) 1) as [E|E]; [|lia]. destruct (B E) as [D|D]; [congruence | exfalso; exact (L R D)]. }
+  split; [lia|]. intros _. left. reflexivity.
+Qed.
+Lemma NK_q_append : forall w u sm g ty rw c0 s o, NK g ty rw c0 s o -> NK g ty rw c0 (q_append w u sm s) o.
+Proof.
+  intros w u sm g ty rw c0 s o H; eapply NK_state; [eassumption | apply Fr_q_append; apply Fr_refl | | rewrite nd_q_append; auto].
+  pose proof (nk_nu _ _ _ _ _ _ H) as U. unfold q_append; cases; exact U.
+Qed.
+#[export] Hint Resolve NK_q_append : nkdb.
+Lemma NK_send_gated : forall w u sm g ty rw c0 s o, NK g ty rw c0 s o -> NK g ty rw c0 (send_gated w u sm s) o.
+Proof. intros; unfold send_gated, ret; cases; leaf; eauto 30 with nkdb. Qed.
+#[export] Hint Resolve NK_send_gated : nkdb.
+Lemma NK_send_raw_m : forall w u sm g ty rw c0 s o, NK g ty rw c0 s o -> NK g ty rw c0 (send_raw_m w u sm s) o.
+Proof. intros; unfold send_raw_m, ret; cases; leaf; eauto 30 with nkdb. Qed.
+#[export] Hint Resolve NK_send_raw_m : nkdb.
+Lemma NK_timed_add : forall k n g ty rw c0 s o, NK g ty rw c0 s o -> NK g ty rw c0 (timed_add k n s) o.
+Proof. intros; unfold timed_add, ret; cases; leaf; eauto 30 with nkdb. Qed.
+#[export] Hint Resolve NK_timed_add : nkdb.
+Lemma NK_timed_del : forall k g ty rw c0 s o, NK g ty rw c0 s o -> NK g ty rw c0 (timed_del k s) o.
+Proof. intros; unfold timed_del, ret; cases; leaf; eauto 30 with nkdb. Qed.
+#[export] Hint Resolve NK_timed_del : nkdb.
+Lemma NK_timed_reset_all : forall n g ty rw c0 s o, NK g ty rw c0 s o -> NK g ty rw c0 (timed_reset_all n s) o.
+Proof. intros; unfold timed_reset_all, ret; cases; leaf; eauto 30 with nkdb. Qed.
+#[export] Hint Resolve NK_timed_reset_all : nkdb.
+Lemma NK_timed_set_stamp : forall k n g ty rw c0 s o, NK g ty rw c0 s o -> NK g ty rw c0 (timed_set_stamp k n s) o.
+Proof. intros; unfold timed_set_stamp, ret; cases; leaf; eauto 30 with nkdb. Qed.
+#[export] Hint Resolve NK_timed_set_stamp : nkdb.
+Lemma NK_h_add : forall k g ty rw c0 s o, NK g ty rw c0 s o -> NK g ty rw c0 (h_add k s) o.
+Proof. intros; unfold h_add, ret; cases; leaf; eauto 30 with nkdb. Qed.
+#[export] Hint Resolve NK_h_add : nkdb.
+Lemma NK_h_del : forall k g ty rw c0 s o, NK g ty rw c0 s o -> NK g ty rw c0 (h_del k s) o.
+Proof. intros; unfold h_del, ret; cases; leaf; eauto 30 with nkdb. Qed.
+#[export] Hint Resolve NK_h_del : nkdb.
+Lemma NK_id_add : forall k g ty rw c0 s o, NK g ty rw c0 s o -> NK g ty rw c0 (id_add k s) o.
+Proof. intros; unfold id_add, ret; cases; leaf; eauto 30 with nkdb. Qed.
+#[export] Hint Resolve NK_id_add : nkdb.
+Lemma NK_id_del : forall k g ty rw c0 s o, NK g ty rw c0 s o -> NK g ty rw c0 (id_del k s) o.
+Proof. intros; unfold id_del, ret; cases; leaf; eauto 30 with nkdb. Qed.
+#[export] Hint Resolve NK_id_del : nkdb.
+Lemma NK_reset_sm_for_reconnect : forall g ty rw c0 s o, NK g ty rw c0 s o -> NK g ty rw c0 (reset_sm_for_reconnect s) o.
+Proof. intros; unfold reset_sm_for_reconnect, ret; cases; leaf; eauto 30 with nkdb. Qed.
+#[export] Hint Resolve NK_reset_sm_for_reconnect : nkdb.
+Lemma NK_sm_queue_cleanup : forall h g ty rw c0 s o, NK g ty rw c0 s o -> NK g ty rw c0 (sm_queue_cleanup h s) o.
+Proof. intros; unfold sm_queue_cleanup, ret; cases; leaf; eauto 30 with nkdb. Qed.
+#[export] Hint Resolve NK_sm_queue_cleanup : nkdb.
+Lemma NK_sm_queue_resend : forall g ty rw c0 s o, NK g ty rw c0 s o -> NK g ty rw c0 (sm_queue_resend s) o.
+Proof. intros; unfold sm_queue_resend. apply fold_left_inv; eauto with nkdb. Qed.
+#[export] Hint Resolve NK_sm_queue_resend : nkdb.
+Lemma NK_conn_disconnect : forall g ty rw c0 s o, NK g ty rw c0 s o -> NK g ty rw c0 (fst (conn_disconnect s)) (o ++ snd (conn_disconnect s)).
+Proof. intros; name_result; unfold conn_disconnect, ret; cases; leaf; eauto 30 with nkdb. Qed.
+#[export] Hint Resolve NK_conn_disconnect : nkdb.
+Lemma NK_xmpp_disconnect : forall n g ty rw c0 s o, NK g ty rw c0 s o -> NK g ty rw c0 (xmpp_disconnect n s) o.
+Proof. intros; unfold xmpp_disconnect, ret; cases; leaf; eauto 30 with nkdb. Qed.
+#[export] Hint Resolve NK_xmpp_disconnect : nkdb.
+Lemma NK_prepare_reset : forall h g ty rw c0 s o, NK g ty rw c0 s o -> NK g ty rw c0 (prepare_reset h s) o.
+Proof. intros; unfold prepare_reset, ret; cases; leaf; eauto 30 with nkdb. Qed.
+#[export] Hint Resolve NK_prepare_reset : nkdb.
+Lemma NK_conn_open_stream : forall g ty rw c0 s o, NK g ty rw c0 s o -> NK g ty rw c0 (conn_open_stream s) o.
+Proof. intros; unfold conn_open_stream, ret; cases; leaf; eauto 30 with nkdb. Qed.
+#[export] Hint Resolve NK_conn_open_stream : nkdb.
+Lemma NK_conn_tls_start : forall g ty rw c0 s o, NK g ty rw c0 s o -> NK g ty rw c0 (fst (fst (conn_tls_start s))) (o ++ snd (fst (conn_tls_start s))).
+Proof. intros; name_result; unfold conn_tls_start, ret; cases; leaf; eauto 30 with nkdb. Qed.
+#[export] Hint Resolve NK_conn_tls_start : nkdb.
+Lemma NK_do_bind : forall n b g ty rw c0 s o, NK g ty rw c0 s o -> NK g ty rw c0 (fst (do_bind n b s)) (o ++ snd (do_bind n b s)).
+Proof. intros; name_result; unfold do_bind, ret; cases; leaf; eauto 30 with nkdb. Qed.
+#[export] Hint Resolve NK_do_bind : nkdb.
+Lemma NK_session_start : forall n g ty rw c0 s o, NK g ty rw c0 s o -> NK g ty rw c0 (session_start n s) o.
+Proof. intros; unfold session_start, ret; cases; leaf; eauto 30 with nkdb. Qed.
+#[export] Hint Resolve NK_session_start : nkdb.
+Lemma NK_sm_enable : forall g ty rw c0 s o, NK g ty rw c0 s o -> NK g ty rw c0 (sm_enable s) o.
+Proof. intros; unfold sm_enable, ret; cases; leaf; eauto 30 with nkdb. Qed.
+#[export] Hint Resolve NK_sm_enable : nkdb.
+Lemma NK_auth_legacy : forall n g ty rw c0 s o, NK g ty rw c0 s o -> NK g ty rw c0 (auth_legacy n s) o.
+Proof. intros; unfold auth_legacy, ret; cases; leaf; eauto 30 with nkdb. Qed.
+#[export] Hint Resolve NK_auth_legacy : nkdb.
+Lemma NK_auth : forall fuel n g ty rw c0 s o, NK g ty rw c0 s o -> NK g ty rw c0 (fst (auth fuel n s)) (o ++ snd (auth fuel n s)).
+Proof. induction fuel; intros; name_result; cbn [auth]; unfold ret; cases; leaf; eauto 30 with nkdb. Qed.
+#[export] Hint Resolve NK_auth : nkdb.
+Lemma NK_sasl_result : forall n e g ty rw c0 s o, NK g ty rw c0 s o -> NK g ty rw c0 (fst (sasl_result n e s)) (o ++ snd (sasl_result n e s)).
+Proof. intros; name_result; unfold sasl_result, ret; cases; leaf; eauto 30 with nkdb. Qed.
+#[export] Hint Resolve NK_sasl_result : nkdb.
+Lemma NK_features_sasl : forall n e g ty rw c0 s o, NK g ty rw c0 s o -> NK g ty rw c0 (fst (features_sasl n e s)) (o ++ snd (features_sasl n e s)).
+Proof. intros; name_result; unfold features_sasl, ret; cases; leaf; eauto 30 with nkdb. Qed.
+#[export] Hint Resolve NK_features_sasl : nkdb.
+Lemma NK_sm_handle : forall e g ty rw c0 s o, NK g ty rw c0 s o -> NK g ty rw c0 (sm_handle e s) o.
+Proof. intros; unfold sm_handle, ret; cases; leaf; eauto 30 with nkdb. Qed.
+#[export] Hint Resolve NK_sm_handle : nkdb.
+Lemma NK_stream_end : forall g ty rw c0 s o, NK g ty rw c0 s o -> NK g ty rw c0 (fst (stream_end s)) (o ++ snd (stream_end s)).
+Proof. intros; name_result; unfold stream_end, ret; cases; leaf; eauto 30 with nkdb. Qed.
+#[export] Hint Resolve NK_stream_end : nkdb.
+
+(* bodies that may report "connected" *)
+Ltac live_tac :=
+  match goal with
+  | L0 : ?rw = false -> st ?s <> Disconnected |- ?rw = false -> st ?x <> Disconnected =>
+      let R := fresh in let E := fresh in
+      intros R; specialize (L0 R); assert (E : StEq s x) by eauto 20 with steqdb; unfold StEq in E; congruence
+  end.
+#[export] Hint Extern 1 (NK _ _ _ _ (fst (stream_negotiation_success _)) _) =>
+  (apply NK_sns; [auto | live_tac | ]) : nkdb.
+
+Lemma NK_call_handler_plain : forall k n e g ty rw c0 s o, hkind_eqb k HSm = false -> hkind_eqb k HComponentHs = false ->
+  NK g ty rw c0 s o -> NK g ty rw c0 (fst (fst (call_handler k n e s))) (o ++ snd (fst (call_handler k n e s))).
+Proof.
+  intros k; destruct k; intros n0 e g ty rw c0 s o K1 K2 H; try discriminate;
+    name_result; unfold call_handler, ret; cases; leaf; eauto 30 with nkdb.
+Qed.
+Lemma NK_HComponentHs : forall n e g ty rw c0 s o, (e_name e = NmHandshake -> cjt g ty rw = true) -> (rw = false -> st s <> Disconnected) ->
+  NK g ty rw c0 s o -> NK g ty rw c0 (fst (fst (call_handler HComponentHs n e s))) (o ++ snd (fst (call_handler HComponentHs n e s))).
+Proof.
+  intros n e g ty rw c0 s o J L H. name_result. unfold call_handler, ret. cases; leaf; eauto 30 with nkdb.
+Qed.
+Lemma NK_HSm : forall n e g ty rw c0 s o,
+  (negb (sm_enabled s) = false -> e_name e = NmEnabled -> cjt g ty rw = true) ->
+  (e_name e = NmResumed -> cjt g ty rw = true) ->
+  (sm_resume s = false -> e_name e = NmFailed -> cjt g ty rw = true) ->
+  (rw = false -> st s <> Disconnected) ->
+  NK g ty rw c0 s o -> NK g ty rw c0 (fst (fst (call_handler HSm n e s))) (o ++ snd (fst (call_handler HSm n e s))).
+Proof.
+  intros n e g ty rw c0 s o J1 J2 J3 L H. name_result. unfold call_handler, ret. cases; leaf; eauto 30 with nkdb.
+Qed.
+Lemma NK_call_id_handler : forall k n e g ty rw c0 s o,
+  (e_type e = TyResult -> (k = IKLegacy -> e_name e = NmIq) -> cjt g ty rw = true) -> (rw = false -> st s <> Disconnected) ->
+  NK g ty rw c0 s o -> NK g ty rw c0 (fst (call_id_handler k n e s)) (o ++ snd (call_id_handler k n e s)).
+Proof.
+  intros k n e g ty rw c0 s o J L H. destruct k; name_result; unfold call_id_handler, ret; cases; leaf;
+    try (assert (J' : cjt g ty rw = true) by (apply J; [reflexivity | let X := fresh in intros X; first [discriminate X | assumption | reflexivity]]));
+    clear J;
+    try (match goal with |- NK _ _ _ _ (fst (stream_negotiation_success _)) _ => apply NK_sns; [assumption | live_tac | eauto 10 with nkdb] end);
+    eauto 30 with nkdb.
+Qed.
+Lemma NK_open_handler : forall n g ty rw c0 s o, (oh s = OpenRaw -> cjt g ty rw = true) -> (rw = false -> st s <> Disconnected) ->
+  NK g ty rw c0 s o -> NK g ty rw c0 (fst (open_handler n s)) (o ++ snd (open_handler n s)).
+Proof.
+  intros n g ty rw c0 s o J L H. name_result. unfold open_handler, ret. destruct (oh s) eqn:O; try specialize (J eq_refl); cases; leaf; eauto 30 with nkdb.
+Qed.
+
+(* ------------------------------------------------------------------ lifting: one dispatched element *)
+Lemma NK_regh : forall g ty rw c0 s o, NK g ty rw c0 s o -> NK (gh s) ty rw c0 s o.
+Proof. intros g ty rw c0 s o []. constructor; auto using GFr_refl. Qed.
+Lemma NK_mono : forall g g' ty rw c0 s o, GFr g' g -> NK g ty rw c0 s o -> NK g' ty rw c0 s o.
+Proof. intros g g' ty rw c0 s o F []. constructor; auto. eapply GFr_trans; eauto. Qed.
+Lemma cjt_client : forall g, g_auth_ok g = true -> (g_bound g = true \/ g_resumed g = true) -> cjt g TClient false = true.
+Proof. intros g A [B|B]; unfold cjt; rewrite A, B; cbn; rewrite ?orb_true_r; reflexivity. Qed.
+Lemma live_st : forall s, live s = true -> st s <> Disconnected.
+Proof. intros s L D. unfold live in L. rewrite D in L. discriminate. Qed.
+Lemma not_live : forall s, live s = false -> st s = Disconnected.
+Proof. intros s. unfold live. destruct (st s); auto; discriminate. Qed.
+
+Section CKVisit.
+Variables (g : ghost) (ty : ctype) (rw : bool) (c0 : nat) (n : Z) (e : elem) (p : list out).
+Hypothesis NX : Nx e g.
+Definition K2 (r : R) : Prop :=
+  PH (fst r) /\ DL (fst r) /\ CR true g ty rw (fst r) /\ NK g ty rw c0 (fst r) (p ++ snd r).
+Lemma CK_visit : forall r k, K2 r -> K2 (visit n e r k).
+Proof.
+  intros [s o] k (P & L & C & K). pose proof (PH_visit n e (s, o) k (conj P L)) as [P1 L1]. refine (conj P1 (conj L1 _)).
+  cbn [fst snd] in *. unfold visit.
+  destruct (crashed s); [split; assumption|]. destruct (negb (h_has k s)) eqn:E; [split; assumption|]. apply negb_false_iff in E.
+  destruct (hkind_eqb k HUser && negb (neg_done s)); [split; assumption|].
+  destruct (negb (filter_match k e)) eqn:Fm; [split; assumption|]. apply negb_false_iff in Fm.
+  destruct NX as (N1 & N2 & N3 & N4 & N5). pose proof C as C'. cr_dest C'.
+  assert (Lv0 : live s = true \/ live s = false) by (destruct (live s); auto). destruct Lv0 as [Lv|Lv].
+  - (* live connection *)
+    pose proof (live_st s Lv) as Ls.
+    destruct (hkind_eqb k HSm) eqn:Ksm; [apply hkind_eqb_eq in Ksm; subst k|].
+    + (* _handle_sm *)
+      assert (TC : isclient ty rw) by (apply R5; [exact Lv | exact (clientreg_main HSm s eq_refl E)]).
+      assert (A : g_auth_ok g = true) by (apply R1; exact (postauth_pa HSm s eq_refl E)).
+      destruct TC as [Ety Erw].
+      pose proof (CR_HSm g ty rw n e s Lv E Fm NX C) as Q1.
+      pose proof (NK_HSm n e g ty rw c0 s (p ++ o)) as Q2.
+      destruct (call_handler HSm n e s) as [[s1 o1] keep]. cbn [fst snd] in *.
+      split; [exact Q1|]. rewrite app_assoc.
+      assert (Q3 : NK g ty rw c0 s1 ((p ++ o) ++ o1)).
+      { apply Q2; auto; rewrite Ety, Erw.
+        - intros En _. apply negb_false_iff in En. apply cjt_client; auto.
+        - intros Nm. apply cjt_client; auto. right. apply N4; [exact (filter_sm e Fm) | exact Nm].
+        - intros Sr _. apply cjt_client; auto. }
+      destruct keep; [exact Q3 | apply NK_h_del; exact Q3].
+    + destruct (hkind_eqb k HComponentHs) eqn:Kc; [apply hkind_eqb_eq in Kc; subst k|].
+      * (* component handshake *)
+        assert (IC : iscomp ty rw) by (apply R6; auto). destruct IC as [Ety Erw].
+        pose proof (CR_call_handler true g ty rw HComponentHs n e s eq_refl Lv E Fm NX C) as Q1.
+        pose proof (NK_HComponentHs n e g ty rw c0 s (p ++ o)) as Q2.
+        destruct (call_handler HComponentHs n e s) as [[s1 o1] keep]. cbn [fst snd] in *.
+        assert (Q3 : NK g ty rw c0 s1 ((p ++ o) ++ o1)) by (apply Q2; auto; rewrite Ety, Erw; exact N5).
+        rewrite app_assoc. destruct keep; [split; assumption | split; [apply CR_h_del; exact Q1 | apply NK_h_del; exact Q3]].
+      * pose proof (CR_call_handler true g ty rw k n e s Ksm Lv E Fm NX C) as Q1.
+        pose proof (NK_call_handler_plain k n e g ty rw c0 s (p ++ o) Ksm Kc K) as Q3.
+        destruct (call_handler k n e s) as [[s1 o1] keep]. cbn [fst snd] in *.
+        rewrite app_assoc. destruct keep; [split; assumption | split; [apply CR_h_del; exact Q1 | apply NK_h_del; exact Q3]].
+  - (* dead connection: only the user handler / _handle_error can be registered *)
+    destruct (Dead_handler k s (L (not_live s Lv)) E) as [A B].
+    assert (Ksm : hkind_eqb k HSm = false) by (destruct k; try discriminate; reflexivity).
+    pose proof (NK_call_handler_plain k n e g ty rw c0 s (p ++ o) Ksm B K) as Q3.
+    assert (Q1 : CR true g ty rw (fst (fst (call_handler k n e s)))).
+    { destruct k; try discriminate; cbn [call_handler fst]; eauto with crdb. }
+    destruct (call_handler k n e s) as [[s1 o1] keep]. cbn [fst snd] in *.
+    rewrite app_assoc. destruct keep; [split; assumption | split; [apply CR_h_del; exact Q1 | apply NK_h_del; exact Q3]].
+Qed.
+Lemma CK_fold_visit : forall l r, K2 r -> K2 (fold_left (visit n e) l r).
+Proof. intros l. apply fold_left_inv. intros; apply CK_visit; auto. Qed.
+End CKVisit.
+
+Definition CKs (ty : ctype) (rw : bool) (c0 : nat) (s : state) (o : list out) : Prop :=
+  CR true (gh s) ty rw s /\ NK (gh s) ty rw c0 s o.
+Lemma CKs_of : forall g ty rw c0 s o, CR true g ty rw s -> NK g ty rw c0 s o -> CKs ty rw c0 s o.
+Proof. intros g ty rw c0 s o C K. split; [eapply CR_mono; [apply (nk_gfr _ _ _ _ _ _ K) | exact C] | eapply NK_regh; exact K]. Qed.
+Lemma cjt_legacy : forall g, g_legacy_ok g = true -> cjt g TClient false = true.
+Proof. intros g A. unfold cjt. rewrite A. apply orb_true_r. Qed.
+
+Lemma CK_dispatch : forall ty rw c0 n e p s, PH s -> DL s -> CKs ty rw c0 s p ->
+  CKs ty rw c0 (fst (dispatch n e s)) (p ++ snd (dispatch n e s)).
+Proof.
+  intros ty rw c0 n e p s0 P0 L0 [C0 K0].
+  pose proof (PH_note_rx e s0 P0) as P1. pose proof (DL_note_rx e s0 L0) as L1.
+  assert (C1 : CR true (gh (note_rx e s0)) ty rw (note_rx e s0)) by (apply CR_note_rx; eapply CR_mono; [apply GFr_note_rx | exact C0]).
+  assert (K1 : NK (gh (note_rx e s0)) ty rw c0 (note_rx e s0) p) by (eapply NK_regh; apply NK_note_rx; exact K0).
+  pose proof (note_rx_noted e s0) as NX.
+  unfold dispatch. revert NX C1 K1. generalize (gh (note_rx e s0)). intros g NX C1 K1.
+  generalize dependent (note_rx e s0). clear s0 P0 L0 C0 K0. intros s P1 L1 C1 K1.
+  destruct (negb (sm_alloc s)); [cbn [fst snd]; apply (CKs_of g); eauto with crdb nkdb|].
+  pose proof (PH_enable_all s P1) as P2. pose proof (DL_enable_all s L1) as L2.
+  assert (C2 : CR true g ty rw (set_handlers (map (fun x : hkind * bool => (fst x, true)) (handlers s)) s)) by eauto with crdb.
+  assert (K2' : NK g ty rw c0 (set_handlers (map (fun x : hkind * bool => (fst x, true)) (handlers s)) s) p) by eauto with nkdb.
+  generalize dependent (set_handlers (map (fun x : hkind * bool => (fst x, true)) (handlers s)) s). clear s P1 L1 C1 K1. intros s P2 L2 C2 K2'.
+  cbv zeta.
+  match goal with |- context [let '(s1, o1) := ?r in _] => assert (Rr : K2 g ty rw c0 p r) end.
+  { unfold K2. destruct (idk_of (e_id e)) as [k|] eqn:Ik; [|cbn [fst snd ret]; rewrite app_nil_r; auto].
+    destruct (id_has k s) eqn:Hk; [|cbn [fst snd ret]; rewrite app_nil_r; auto].
+    pose proof (PH_id_step k n e s P2 L2 Hk) as [T1 T2].
+    assert (Lv : live s = true).
+    { destruct (live s) eqn:Lv; auto. rewrite (Dead_no_id k s (L2 (not_live s Lv))) in Hk. discriminate. }
+    pose proof (CR_call_id_handler g ty rw k n e s Lv Hk Ik NX C2) as T3.
+    pose proof (NK_call_id_handler k n e g ty rw c0 s p) as T4.
+    destruct (call_id_handler k n e s) as [s1 o1]. cbn [fst snd] in *. refine (conj T1 (conj T2 (conj (CR_id_del _ _ _ _ k s1 T3) _))).
+    apply NK_id_del. apply T4; auto; [|intros _; apply live_st; exact Lv].
+    intros Ty Nm. destruct NX as (N1 & N2 & N3 & N4 & N5). pose proof C2 as C2'. cr_dest C2'.
+    assert (TC : isclient ty rw) by (apply R5; [exact Lv | exact (clientreg_id k s Hk)]). destruct TC as [Ety Erw]. rewrite Ety, Erw.
+    destruct k.
+    - apply cjt_client; [apply R1; exact (postauth_id IKBind s eq_refl Hk) | left; apply N2; auto; destruct (e_id e); try discriminate; reflexivity].
+    - apply cjt_client; [apply R1; exact (postauth_id IKSession s eq_refl Hk) | left; apply R2; exact Hk].
+    - apply cjt_legacy. apply N3; auto. destruct (e_id e); try discriminate; reflexivity. }
+  match goal with |- context [let '(s1, o1) := ?r in _] => destruct r as [s1 o1] end.
+  pose proof (CK_fold_visit g ty rw c0 n e p NX (map fst (filter (fun x => snd x) (handlers s1))) (s1, o1) Rr) as (P4 & L4 & C4 & K4).
+  destruct (fold_left (visit n e) (map fst (filter (fun x => snd x) (handlers s1))) (s1, o1)) as [s3 o3]. cbn [fst snd] in *.
+  destruct (crashed s3); [cbn [fst snd]; apply (CKs_of g); auto|]. destruct (sm_enabled s3); cbn [fst snd]; apply (CKs_of g); eauto with crdb nkdb.
+Qed.
+
+(* ------------------------------------------------------------------ lifting: parser layer *)
+Lemma NK_stream_start : forall n a b ty rw c0 s o, (rw = false -> st s <> Disconnected) -> (oh s = OpenRaw -> rw = true) ->
+  NK (gh s) ty rw c0 s o ->
+  NK (gh (fst (stream_start n a b s))) ty rw c0 (fst (stream_start n a b s)) (o ++ snd (stream_start n a b s)).
+Proof.
+  intros n a b ty rw c0 s o L R7 H. unfold stream_start.
+  set (x := set_stream_id false (upg (fun g : ghost => set_g_raw_open (a || g_raw_open g) (set_g_feat_seen false g)) s)).
+  assert (Hx : NK (gh x) ty rw c0 x o) by (eapply NK_regh; unfold x; eauto 10 with nkdb).
+  assert (Gx : a = true -> g_raw_open (gh x) = true) by (intros ->; unfold x; sproj; destruct (gh s); reflexivity).
+  assert (Lx : rw = false -> st x <> Disconnected) by exact L.
+  assert (Ox : oh x = oh s) by reflexivity.
+  clearbody x. destruct a.
+  - pose proof (NK_open_handler n (gh x) ty rw c0 (set_stream_id b x) o) as Q.
+    eapply NK_regh. apply Q; auto; [ | eauto with nkdb].
+    intros O. change (oh (set_stream_id b x)) with (oh x) in O. rewrite Ox in O. rewrite (R7 O). unfold cjt. auto.
+  - eapply NK_regh. apply NK_conn_disconnect. exact Hx.
+Qed.
+
+Lemma CK_feed_item : forall ty rw c0 n it p s, FI s -> CKs ty rw c0 s p ->
+  CKs ty rw c0 (fst (fst (feed_item n it s))) (p ++ snd (fst (feed_item n it s))).
+Proof.
+  intros ty rw c0 n it p s (P & L & F) [C K].
+  assert (Gen : forall s' o', CR true (gh s) ty rw s' -> NK (gh s) ty rw c0 s' (p ++ o') -> CKs ty rw c0 s' (p ++ o')) by (intros; eapply CKs_of; eauto).
+  assert (R7 : oh s = OpenRaw -> rw = true) by apply C.
+  unfold feed_item.
+  destruct (ps s) eqn:Ps; cbn [ps_live is_depth0] in *;
+    destruct it as [h|e| |]; try (cases; cbn [fst snd]; apply Gen; eauto 10 with crdb nkdb; fail).
+  - (* header at depth 0 *)
+    destruct (F eq_refl) as [Fc Fr].
+    assert (Lv : live (set_ps POpen s) = true) by (unfold live; sproj; rewrite Fc; reflexivity).
+    pose proof (CR_stream_start (gh s) ty rw n true h _ Lv (CR_set_ps _ _ _ _ POpen s C)) as Q1.
+    pose proof (NK_stream_start n true h ty rw c0 (set_ps POpen s) p) as Q2.
+    pose proof (Fr_stream_start n true h _ _ (Fr_refl (set_ps POpen s))) as Ff.
+    destruct (stream_start n true h (set_ps POpen s)) as [s1 o1]. cbn [fst snd] in *.
+    assert (Q3 : NK (gh s1) ty rw c0 s1 (p ++ o1)) by (apply Q2; [intros _; sproj; congruence | exact R7 | apply NK_set_ps; exact K]).
+    apply (CKs_of (gh s1)); [|exact Q3]. eapply CR_mono; [exact (fr_gh _ _ Ff)|exact Q1].
+  - (* element at depth 0 *)
+    destruct (F eq_refl) as [Fc Fr].
+    destruct (ns_eqb (e_ns e) NsStreams); [cbn [fst snd]; apply Gen; eauto 10 with crdb nkdb|].
+    assert (Lv : live (set_ps PClosed s) = true) by (unfold live; sproj; rewrite Fc; reflexivity).
+    pose proof (CR_stream_start (gh s) ty rw n (ename_eqb (e_name e) NmStream) false _ Lv (CR_set_ps _ _ _ _ PClosed s C)) as Q1.
+    pose proof (NK_stream_start n (ename_eqb (e_name e) NmStream) false ty rw c0 (set_ps PClosed s) p) as Q2.
+    pose proof (Fr_stream_start n (ename_eqb (e_name e) NmStream) false _ _ (Fr_refl (set_ps PClosed s))) as Ff.
+    destruct (stream_start n (ename_eqb (e_name e) NmStream) false (set_ps PClosed s)) as [s1 o1]. cbn [fst snd] in *.
+    assert (Q3 : NK (gh s1) ty rw c0 s1 (p ++ o1)) by (apply Q2; [intros _; sproj; congruence | exact R7 | apply NK_set_ps; exact K]).
+    assert (Q4 : CR true (gh s1) ty rw s1) by (eapply CR_mono; [exact (fr_gh _ _ Ff)|exact Q1]).
+    destruct (crashed s1); [cbn [fst snd]; split; assumption|].
+    pose proof (CR_stream_end true (gh s1) ty rw s1 Q4) as Q5. pose proof (NK_stream_end (gh s1) ty rw c0 s1 (p ++ o1) Q3) as Q6.
+    destruct (stream_end s1) as [s2 o2]. cbn [fst snd] in *. rewrite app_assoc. apply (CKs_of (gh s1)); assumption.
+  - (* element on an open stream *)
+    pose proof (CK_dispatch ty rw c0 n e p s P (L eq_refl) (conj C K)) as Q. destruct (dispatch n e s) as [s1 o1]. exact Q.
+  - (* end of a swallowed nested stream element *)
+    destruct n0 as [|[|m]]; try (cbn [fst snd]; apply Gen; eauto 10 with crdb nkdb; fail).
+    pose proof (CK_dispatch ty rw c0 n (nested_stream_elem cns) p _ (PH_set_ps POpen s eq_refl P) (DL_set_ps POpen s (L eq_refl))) as Q.
+    destruct (dispatch n (nested_stream_elem cns) (set_ps POpen s)) as [s1 o1]. apply Q.
+    split; [apply CR_set_ps; exact C | apply NK_set_ps; exact K].
+Qed.
+Lemma CK_feed_items : forall ty rw c0 n its p s, FI s -> CKs ty rw c0 s p ->
+  CKs ty rw c0 (fst (fst (feed_items n its s))) (p ++ snd (fst (feed_items n its s))).
+Proof.
+  intros ty rw c0 n. induction its as [|it r IH]; intros p s F H; cbn [feed_items]; [cbn [fst snd]; rewrite app_nil_r; exact H|].
+  destruct (crashed s); [cbn [fst snd]; rewrite app_nil_r; exact H|].
+  pose proof (FI_feed_item n it s F) as F1. pose proof (CK_feed_item ty rw c0 n it p s F H) as H1.
+  destruct (feed_item n it s) as [[s1 o1] bad]. cbn [fst snd] in *.
+  destruct bad; [exact H1|]. specialize (IH (p ++ o1) s1 F1 H1). destruct (feed_items n r s1) as [[s2 o2] bad2]. cbn [fst snd] in *.
+  rewrite app_assoc. exact IH.
+Qed.
+
+(* CRD: the part of CR that does not depend on the connection being live (a disconnected object's timed handlers
+   may still run once within the same iteration) *)
+Definition CRD (g : ghost) (rw : bool) (s : state) : Prop :=
+  (postauth s = true -> g_auth_ok g = true) /\ (id_has IKSession s = true -> g_bound g = true) /\
+  (sm_enabled s = true -> g_bound g = true \/ g_resumed g = true) /\ (oh s = OpenRaw -> rw = true).
+Lemma CRD_set_f_tls_disabled : forall g rw v s, CRD g rw s -> CRD g rw (set_f_tls_disabled v s).
+Proof. intros g rw v []; exact (fun h => h). Qed.
+#[export] Hint Resolve CRD_set_f_tls_disabled : crddb.
+Lemma CRD_set_f_tls_mandatory : forall g rw v s, CRD g rw s -> CRD g rw (set_f_tls_mandatory v s).
+Proof. intros g rw v []; exact (fun h => h). Qed.
+#[export] Hint Resolve CRD_set_f_tls_mandatory : crddb.
+Lemma CRD_set_f_legacy_ssl : forall g rw v s, CRD g rw s -> CRD g rw (set_f_legacy_ssl v s).
+Proof. intros g rw v []; exact (fun h => h). Qed.
+#[export] Hint Resolve CRD_set_f_legacy_ssl : crddb.
+Lemma CRD_set_f_tls_trust : forall g rw v s, CRD g rw s -> CRD g rw (set_f_tls_trust v s).
+Proof. intros g rw v []; exact (fun h => h). Qed.
+#[export] Hint Resolve CRD_set_f_tls_trust : crddb.
+Lemma CRD_set_f_legacy_auth : forall g rw v s, CRD g rw s -> CRD g rw (set_f_legacy_auth v s).
+Proof. intros g rw v []; exact (fun h => h). Qed.
+#[export] Hint Resolve CRD_set_f_legacy_auth : crddb.
+Lemma CRD_set_f_sm_disable : forall g rw v s, CRD g rw s -> CRD g rw (set_f_sm_disable v s).
+Proof. intros g rw v []; exact (fun h => h). Qed.
+#[export] Hint Resolve CRD_set_f_sm_disable : crddb.
+Lemma CRD_set_f_comp_allowed : forall g rw v s, CRD g rw s -> CRD g rw (set_f_comp_allowed v s).
+Proof. intros g rw v []; exact (fun h => h). Qed.
+#[export] Hint Resolve CRD_set_f_comp_allowed : crddb.
+Lemma CRD_set_f_comp_dont_reset : forall g rw v s, CRD g rw s -> CRD g rw (set_f_comp_dont_reset v s).
+Proof. intros g rw v []; exact (fun h => h). Qed.
+#[export] Hint Resolve CRD_set_f_comp_dont_reset : crddb.
+Lemma CRD_set_jid_set : forall g rw v s, CRD g rw s -> CRD g rw (set_jid_set v s).
+Proof. intros g rw v []; exact (fun h => h). Qed.
+#[export] Hint Resolve CRD_set_jid_set : crddb.
+Lemma CRD_set_jid_node : forall g rw v s, CRD g rw s -> CRD g rw (set_jid_node v s).
+Proof. intros g rw v []; exact (fun h => h). Qed.
+#[export] Hint Resolve CRD_set_jid_node : crddb.
+Lemma CRD_set_jid_res : forall g rw v s, CRD g rw s -> CRD g rw (set_jid_res v s).
+Proof. intros g rw v []; exact (fun h => h). Qed.
+#[export] Hint Resolve CRD_set_jid_res : crddb.
+Lemma CRD_set_pass_set : forall g rw v s, CRD g rw s -> CRD g rw (set_pass_set v s).
+Proof. intros g rw v []; exact (fun h => h). Qed.
+#[export] Hint Resolve CRD_set_pass_set : crddb.
+Lemma CRD_set_cert_set : forall g rw v s, CRD g rw s -> CRD g rw (set_cert_set v s).
+Proof. intros g rw v []; exact (fun h => h). Qed.
+#[export] Hint Resolve CRD_set_cert_set : crddb.
+Lemma CRD_set_is_raw : forall g rw v s, CRD g rw s -> CRD g rw (set_is_raw v s).
+Proof. intros g rw v []; exact (fun h => h). Qed.
+#[export] Hint Resolve CRD_set_is_raw : crddb.
+Lemma CRD_set_typ : forall g rw v s, CRD g rw s -> CRD g rw (set_typ v s).
+Proof. intros g rw v []; exact (fun h => h). Qed.
+#[export] Hint Resolve CRD_set_typ : crddb.
+Lemma CRD_set_user_handler : forall g rw v s, CRD g rw s -> CRD g rw (set_user_handler v s).
+Proof. intros g rw v []; exact (fun h => h). Qed.
+#[export] Hint Resolve CRD_set_user_handler : crddb.
+Lemma CRD_set_user_timed : forall g rw v s, CRD g rw s -> CRD g rw (set_user_timed v s).
+Proof. intros g rw v []; exact (fun h => h). Qed.
+#[export] Hint Resolve CRD_set_user_timed : crddb.
+Lemma CRD_set_tlsnew_ok : forall g rw v s, CRD g rw s -> CRD g rw (set_tlsnew_ok v s).
+Proof. intros g rw v []; exact (fun h => h). Qed.
+#[export] Hint Resolve CRD_set_tlsnew_ok : crddb.
+Lemma CRD_set_cb_avail : forall g rw v s, CRD g rw s -> CRD g rw (set_cb_avail v s).
+Proof. intros g rw v []; exact (fun h => h). Qed.
+#[export] Hint Resolve CRD_set_cb_avail : crddb.
+Lemma CRD_set_tls_verdicts : forall g rw v s, CRD g rw s -> CRD g rw (set_tls_verdicts v s).
+Proof. intros g rw v []; exact (fun h => h). Qed.
+#[export] Hint Resolve CRD_set_tls_verdicts : crddb.
+Lemma CRD_set_next_cands : forall g rw v s, CRD g rw s -> CRD g rw (set_next_cands v s).
+Proof. intros g rw v []; exact (fun h => h). Qed.
+#[export] Hint Resolve CRD_set_next_cands : crddb.
+Lemma CRD_set_cands : forall g rw v s, CRD g rw s -> CRD g rw (set_cands v s).
+Proof. intros g rw v []; exact (fun h => h). Qed.
+#[export] Hint Resolve CRD_set_cands : crddb.
+Lemma CRD_set_cur_ep : forall g rw v s, CRD g rw s -> CRD g rw (set_cur_ep v s).
+Proof. intros g rw v []; exact (fun h => h). Qed.
+#[export] Hint Resolve CRD_set_cur_ep : crddb.
+Lemma CRD_set_st : forall g rw v s, CRD g rw s -> CRD g rw (set_st v s).
+Proof. intros g rw v []; exact (fun h => h). Qed.
+#[export] Hint Resolve CRD_set_st : crddb.
+Lemma CRD_set_stamp : forall g rw v s, CRD g rw s -> CRD g rw (set_stamp v s).
+Proof. intros g rw v []; exact (fun h => h). Qed.
+#[export] Hint Resolve CRD_set_stamp : crddb.
+Lemma CRD_set_err : forall g rw v s, CRD g rw s -> CRD g rw (set_err v s).
+Proof. intros g rw v []; exact (fun h => h). Qed.
+#[export] Hint Resolve CRD_set_err : crddb.
+Lemma CRD_set_stream_error : forall g rw v s, CRD g rw s -> CRD g rw (set_stream_error v s).
+Proof. intros g rw v []; exact (fun h => h). Qed.
+#[export] Hint Resolve CRD_set_stream_error : crddb.
+Lemma CRD_set_secured : forall g rw v s, CRD g rw s -> CRD g rw (set_secured v s).
+Proof. intros g rw v []; exact (fun h => h). Qed.
+#[export] Hint Resolve CRD_set_secured : crddb.
+Lemma CRD_set_tls_present : forall g rw v s, CRD g rw s -> CRD g rw (set_tls_present v s).
+Proof. intros g rw v []; exact (fun h => h). Qed.
+#[export] Hint Resolve CRD_set_tls_present : crddb.
+Lemma CRD_set_tls_failed : forall g rw v s, CRD g rw s -> CRD g rw (set_tls_failed v s).
+Proof. intros g rw v []; exact (fun h => h). Qed.
+#[export] Hint Resolve CRD_set_tls_failed : crddb.
+Lemma CRD_set_tls_support : forall g rw v s, CRD g rw s -> CRD g rw (set_tls_support v s).
+Proof. intros g rw v []; exact (fun h => h). Qed.
+#[export] Hint Resolve CRD_set_tls_support : crddb.
+Lemma CRD_set_sasl : forall g rw v s, CRD g rw s -> CRD g rw (set_sasl v s).
+Proof. intros g rw v []; exact (fun h => h). Qed.
+#[export] Hint Resolve CRD_set_sasl : crddb.
+Lemma CRD_set_bind_required : forall g rw v s, CRD g rw s -> CRD g rw (set_bind_required v s).
+Proof. intros g rw v []; exact (fun h => h). Qed.
+#[export] Hint Resolve CRD_set_bind_required : crddb.
+Lemma CRD_set_session_required : forall g rw v s, CRD g rw s -> CRD g rw (set_session_required v s).
+Proof. intros g rw v []; exact (fun h => h). Qed.
+#[export] Hint Resolve CRD_set_session_required : crddb.
+Lemma CRD_set_comp_supported : forall g rw v s, CRD g rw s -> CRD g rw (set_comp_supported v s).
+Proof. intros g rw v []; exact (fun h => h). Qed.
+#[export] Hint Resolve CRD_set_comp_supported : crddb.
+Lemma CRD_set_comp_active : forall g rw v s, CRD g rw s -> CRD g rw (set_comp_active v s).
+Proof. intros g rw v []; exact (fun h => h). Qed.
+#[export] Hint Resolve CRD_set_comp_active : crddb.
+Lemma CRD_set_sm_alloc : forall g rw v s, CRD g rw s -> CRD g rw (set_sm_alloc v s).
+Proof. intros g rw v []; exact (fun h => h). Qed.
+#[export] Hint Resolve CRD_set_sm_alloc : crddb.
+Lemma CRD_set_sm_support : forall g rw v s, CRD g rw s -> CRD g rw (set_sm_support v s).
+Proof. intros g rw v []; exact (fun h => h). Qed.
+#[export] Hint Resolve CRD_set_sm_support : crddb.
+Lemma CRD_set_sm_can_resume : forall g rw v s, CRD g rw s -> CRD g rw (set_sm_can_resume v s).
+Proof. intros g rw v []; exact (fun h => h). Qed.
+#[export] Hint Resolve CRD_set_sm_can_resume : crddb.
+Lemma CRD_set_sm_resume : forall g rw v s, CRD g rw s -> CRD g rw (set_sm_resume v s).
+Proof. intros g rw v []; exact (fun h => h). Qed.
+#[export] Hint Resolve CRD_set_sm_resume : crddb.
+Lemma CRD_set_sm_dont_request : forall g rw v s, CRD g rw s -> CRD g rw (set_sm_dont_request v s).
+Proof. intros g rw v []; exact (fun h => h). Qed.
+#[export] Hint Resolve CRD_set_sm_dont_request : crddb.
+Lemma CRD_set_sm_has_previd : forall g rw v s, CRD g rw s -> CRD g rw (set_sm_has_previd v s).
+Proof. intros g rw v []; exact (fun h => h). Qed.
+#[export] Hint Resolve CRD_set_sm_has_previd : crddb.
+Lemma CRD_set_sm_has_id : forall g rw v s, CRD g rw s -> CRD g rw (set_sm_has_id v s).
+Proof. intros g rw v []; exact (fun h => h). Qed.
+#[export] Hint Resolve CRD_set_sm_has_id : crddb.
+Lemma CRD_set_sm_parked : forall g rw v s, CRD g rw s -> CRD g rw (set_sm_parked v s).
+Proof. intros g rw v []; exact (fun h => h). Qed.
+#[export] Hint Resolve CRD_set_sm_parked : crddb.
+Lemma CRD_set_sm_r_sent : forall g rw v s, CRD g rw s -> CRD g rw (set_sm_r_sent v s).
+Proof. intros g rw v []; exact (fun h => h). Qed.
+#[export] Hint Resolve CRD_set_sm_r_sent : crddb.
+Lemma CRD_set_sm_bind_saved : forall g rw v s, CRD g rw s -> CRD g rw (set_sm_bind_saved v s).
+Proof. intros g rw v []; exact (fun h => h). Qed.
+#[export] Hint Resolve CRD_set_sm_bind_saved : crddb.
+Lemma CRD_set_bound_jid : forall g rw v s, CRD g rw s -> CRD g rw (set_bound_jid v s).
+Proof. intros g rw v []; exact (fun h => h). Qed.
+#[export] Hint Resolve CRD_set_bound_jid : crddb.
+Lemma CRD_set_stream_id : forall g rw v s, CRD g rw s -> CRD g rw (set_stream_id v s).
+Proof. intros g rw v []; exact (fun h => h). Qed.
+#[export] Hint Resolve CRD_set_stream_id : crddb.
+Lemma CRD_set_neg_done : forall g rw v s, CRD g rw s -> CRD g rw (set_neg_done v s).
+Proof. intros g rw v []; exact (fun h => h). Qed.
+#[export] Hint Resolve CRD_set_neg_done : crddb.
+Lemma CRD_set_reset_parser : forall g rw v s, CRD g rw s -> CRD g rw (set_reset_parser v s).
+Proof. intros g rw v []; exact (fun h => h). Qed.
+#[export] Hint Resolve CRD_set_reset_parser : crddb.
+Lemma CRD_set_ps : forall g rw v s, CRD g rw s -> CRD g rw (set_ps v s).
+Proof. intros g rw v []; exact (fun h => h). Qed.
+#[export] Hint Resolve CRD_set_ps : crddb.
+Lemma CRD_set_timed : forall g rw v s, CRD g rw s -> CRD g rw (set_timed v s).
+Proof. intros g rw v []; exact (fun h => h). Qed.
+#[export] Hint Resolve CRD_set_timed : crddb.
+Lemma CRD_set_sendq : forall g rw v s, CRD g rw s -> CRD g rw (set_sendq v s).
+Proof. intros g rw v []; exact (fun h => h). Qed.
+#[export] Hint Resolve CRD_set_sendq : crddb.
+Lemma CRD_set_rxq : forall g rw v s, CRD g rw s -> CRD g rw (set_rxq v s).
+Proof. intros g rw v []; exact (fun h => h). Qed.
+#[export] Hint Resolve CRD_set_rxq : crddb.
+Lemma CRD_set_smq : forall g rw v s, CRD g rw s -> CRD g rw (set_smq v s).
+Proof. intros g rw v []; exact (fun h => h). Qed.
+#[export] Hint Resolve CRD_set_smq : crddb.
+Lemma CRD_set_sm_sent : forall g rw v s, CRD g rw s -> CRD g rw (set_sm_sent v s).
+Proof. intros g rw v []; exact (fun h => h). Qed.
+#[export] Hint Resolve CRD_set_sm_sent : crddb.
+Lemma CRD_set_scram_serial : forall g rw v s, CRD g rw s -> CRD g rw (set_scram_serial v s).
+Proof. intros g rw v []; exact (fun h => h). Qed.
+#[export] Hint Resolve CRD_set_scram_serial : crddb.
+Lemma CRD_set_crashed : forall g rw v s, CRD g rw s -> CRD g rw (set_crashed v s).
+Proof. intros g rw v []; exact (fun h => h). Qed.
+#[export] Hint Resolve CRD_set_crashed : crddb.
+Lemma CRD_set_gh : forall g rw v s, CRD g rw s -> CRD g rw (set_gh v s).
+Proof. intros g rw v []; exact (fun h => h). Qed.
+#[export] Hint Resolve CRD_set_gh : crddb.
+Lemma CRD_upg : forall g rw f s, CRD g rw s -> CRD g rw (upg f s).
+Proof. intros g rw f []; exact (fun h => h). Qed.
+Lemma CRD_h_add : forall g rw k s, is_pa k = false -> CRD g rw s -> CRD g rw (h_add k s).
+Proof.
+  intros g rw k s K (A & B & C & D).
+  assert (E : CR false g TClient false (h_add k s) -> True) by auto.
+  refine (conj _ (conj _ (conj _ _))).
+  - unfold postauth. intros P. apply A. unfold postauth. revert P. unfold h_add, id_has. destruct (h_has k s); auto. sproj. rewrite existsb_pa_app. cbn. rewrite K, orb_false_r. auto.
+  - intros P. apply B. revert P. unfold h_add, id_has; cases; auto.
+  - intros P. apply C. revert P. unfold h_add; cases; auto.
+  - intros P. apply D. revert P. unfold h_add; cases; auto.
+Qed.
+Lemma CRD_id_add_legacy : forall g rw s, CRD g rw s -> CRD g rw (id_add IKLegacy s).
+Proof.
+  intros g rw s (A & B & C & D). refine (conj _ (conj _ (conj _ _))).
+  - unfold postauth. rewrite !id_has_id_add. cbn [idk_eqb]. rewrite !orb_false_r.
+    assert (handlers (id_add IKLegacy s) = handlers s) as -> by (unfold id_add; cases; reflexivity).
+    assert (oh (id_add IKLegacy s) = oh s) as -> by (unfold id_add; cases; reflexivity). exact A.
+  - rewrite id_has_id_add. cbn [idk_eqb]. rewrite orb_false_r. exact B.
+  - intros P. apply C. revert P. unfold id_add; cases; auto.
+  - intros P. apply D. revert P. unfold id_add; cases; auto.
+Qed.
+#[export] Hint Resolve CRD_upg CRD_id_add_legacy : crddb.
+#[export] Hint Extern 1 (CRD _ _ (h_add _ _)) => (apply CRD_h_add; [reflexivity | ]) : crddb.
+Lemma CRD_q_append : forall g rw w u sm s, CRD g rw s -> CRD g rw (q_append w u sm s).
+Proof. intros; unfold q_append; cases; eauto 10 with crddb. Qed.
+#[export] Hint Resolve CRD_q_append : crddb.
+Lemma CRD_send_gated : forall g rw w u sm s, CRD g rw s -> CRD g rw (send_gated w u sm s).
+Proof. intros; unfold send_gated; cases; eauto 10 with crddb. Qed.
+Lemma CRD_timed_add : forall g rw k n s, CRD g rw s -> CRD g rw (timed_add k n s).
+Proof. intros; unfold timed_add; cases; eauto 10 with crddb. Qed.
+Lemma CRD_timed_del : forall g rw k s, CRD g rw s -> CRD g rw (timed_del k s).
+Proof. intros; unfold timed_del; eauto 10 with crddb. Qed.
+Lemma CRD_timed_set_stamp : forall g rw k n s, CRD g rw s -> CRD g rw (timed_set_stamp k n s).
+Proof. intros; unfold timed_set_stamp; eauto 10 with crddb. Qed.
+#[export] Hint Resolve CRD_send_gated CRD_timed_add CRD_timed_del CRD_timed_set_stamp : crddb.
+Lemma CRD_xmpp_disconnect : forall g rw n s, CRD g rw s -> CRD g rw (xmpp_disconnect n s).
+Proof. intros; unfold xmpp_disconnect; cases; eauto 10 with crddb. Qed.
+Lemma CRD_reset_sm : forall g rw s, CRD g rw s -> CRD g rw (reset_sm_for_reconnect s).
+Proof.
+  intros g rw s (A & B & C & D).
+  assert (E1 : handlers (reset_sm_for_reconnect s) = handlers s) by (unfold reset_sm_for_reconnect; cases; reflexivity).
+  assert (E2 : idhandlers (reset_sm_for_reconnect s) = idhandlers s) by (unfold reset_sm_for_reconnect; cases; reflexivity).
+  assert (E3 : oh (reset_sm_for_reconnect s) = oh s) by (unfold reset_sm_for_reconnect; cases; reflexivity).
+  assert (E5 : sm_enabled (reset_sm_for_reconnect s) = false) by (unfold reset_sm_for_reconnect; cases; reflexivity).
+  unfold CRD, postauth, id_has in *. rewrite E1, E2, E3, E5. repeat split; auto. intros; discriminate.
+Qed.
+#[export] Hint Resolve CRD_xmpp_disconnect CRD_reset_sm : crddb.
+Lemma CRD_conn_disconnect : forall g rw s, CRD g rw s -> CRD g rw (fst (conn_disconnect s)).
+Proof. intros g rw s H. name_result. unfold conn_disconnect, ret. cases; leaf; eauto 10 with crddb. Qed.
+Lemma CRD_auth_legacy : forall g rw n s, CRD g rw s -> CRD g rw (auth_legacy n s).
+Proof. intros; unfold auth_legacy; cases; eauto 10 with crddb. Qed.
+#[export] Hint Resolve CRD_conn_disconnect CRD_auth_legacy : crddb.
+Lemma CRD_auth : forall g rw fuel n s, CRD g rw s -> CRD g rw (fst (auth fuel n s)).
+Proof. intros g rw. induction fuel; intros; name_result; cbn [auth]; unfold ret; cases; leaf; eauto 20 with crddb. Qed.
+Lemma CRD_call_timed : forall g rw k n s, CRD g rw s -> CRD g rw (fst (fst (call_timed k n s))).
+Proof.
+  intros g rw k n s H. destruct k; unfold call_timed; cbn [fst]; eauto 10 with crddb.
+  - pose proof (CRD_auth g rw 1 n s H) as Q. destruct (auth 1 n s). exact Q.
+  - pose proof (CRD_conn_disconnect g rw s H) as Q. destruct (conn_disconnect s). exact Q.
+Qed.
+Lemma CR_CRD : forall b g ty rw s, CR b g ty rw s -> CRD g rw s.
+Proof. intros b g ty rw s H. cr_dest H. exact (conj R1 (conj R2 (conj R4 R7))). Qed.
+Lemma CRD_CR : forall g ty rw s, live s = false -> CRD g rw s -> CR true g ty rw s.
+Proof. intros g ty rw s L (A & B & C & D). cr_split; auto; intros; congruence. Qed.
+
+(* ------------------------------------------------------------------ lifting: timed handlers *)
+Lemma NK_call_timed : forall k n g ty rw c0 s o, NK g ty rw c0 s o ->
+  NK g ty rw c0 (fst (fst (call_timed k n s))) (o ++ snd (fst (call_timed k n s))).
+Proof. intros k; destruct k; intros; name_result; unfold call_timed, ret; cases; leaf; eauto 20 with nkdb. Qed.
+Lemma CR_call_timed : forall g ty rw k n s, PH s -> live s = true -> timed_has k s = true -> CR true g ty rw s ->
+  CR true g ty rw (fst (fst (call_timed k n s))).
+Proof.
+  intros g ty rw k n s P L T H. destruct k; unfold call_timed; cbn [fst]; eauto 10 with crdb.
+  - destruct (proj2 (ph_t01 _ P) T) as [_ F0]. pose proof H as H'. cr_dest H'.
+    assert (TC : isclient ty rw) by (apply R5; [exact L | exact (clientreg_main HFeatures s eq_refl F0)]).
+    pose proof (CR_auth true g ty rw TC 1 n s H) as Q. destruct (auth 1 n s). exact Q.
+  - pose proof (CR_conn_disconnect true g ty rw s H) as Q. destruct (conn_disconnect s). exact Q.
+Qed.
+Section CKTimed.
+Variables (g : ghost) (ty : ctype) (rw : bool) (c0 : nat) (n : Z) (p : list out).
+Definition K3 (r : R) : Prop := PH (fst r) /\ CR true g ty rw (fst r) /\ NK g ty rw c0 (fst r) (p ++ snd r).
+Lemma CK_visit_timed : forall r k, K3 r -> K3 (visit_timed n r k).
+Proof.
+  intros [s o] k (P & C & K). refine (conj (PH_visit_timed n (s, o) k P) _). cbn [fst snd] in *. unfold visit_timed.
+  destruct (crashed s); [split; assumption|]. destruct (timed_lookup k s) as [[en stp]|] eqn:E; [|split; assumption].
+  destruct (negb en); [split; assumption|]. destruct (tkind_eqb k TUser && negb (neg_done s)); [split; assumption|].
+  destruct (n - stp >=? tperiod s k); [|split; assumption].
+  assert (T : timed_has k (timed_set_stamp k n s) = true) by (rewrite timed_has_timed_set_stamp; eapply timed_lookup_has; eauto).
+  assert (Lv0 : live s = true \/ live s = false) by (destruct (live s); auto). destruct Lv0 as [Lv|Lv].
+  - pose proof (CR_call_timed g ty rw k n _ (PH_timed_set_stamp k n s P) Lv T (CR_timed_set_stamp true g ty rw k n s C)) as Q1.
+    pose proof (NK_call_timed k n g ty rw c0 _ (p ++ o) (NK_timed_set_stamp k n g ty rw c0 s (p ++ o) K)) as Q2.
+    destruct (call_timed k n (timed_set_stamp k n s)) as [[s2 o2] keep]. cbn [fst snd] in *. rewrite app_assoc.
+    destruct keep; [split; assumption | split; [apply CR_timed_del; exact Q1 | apply NK_timed_del; exact Q2]].
+  - (* timed handlers of a disconnected object do not run (fire_timed checks), but visit_timed itself does not care *)
+    pose proof (NK_call_timed k n g ty rw c0 _ (p ++ o) (NK_timed_set_stamp k n g ty rw c0 s (p ++ o) K)) as Q2.
+    assert (Q1 : CR true g ty rw (fst (fst (call_timed k n (timed_set_stamp k n s))))).
+    { apply CRD_CR.
+      - pose proof (Fr_call_timed k n _ _ (Fr_refl (timed_set_stamp k n s))) as Ff. destruct (fr_st _ _ Ff) as [E1|E1]; unfold live; rewrite E1; [|reflexivity].
+        change (st (timed_set_stamp k n s)) with (st s). rewrite (not_live s Lv). reflexivity.
+      - apply CRD_call_timed, CRD_timed_set_stamp. exact (CR_CRD _ _ _ _ _ C). }
+    destruct (call_timed k n (timed_set_stamp k n s)) as [[s2 o2] keep]. cbn [fst snd] in *. rewrite app_assoc.
+    destruct keep; [split; assumption | split; [apply CR_timed_del; exact Q1 | apply NK_timed_del; exact Q2]].
+Qed.
+End CKTimed.
+
+(* ------------------------------------------------------------------ lifting: phases of an iteration *)
+Lemma NK_same : forall g ty rw c0 s o s', gh s' = gh s -> typ s' = typ s -> is_raw s' = is_raw s -> neg_done s' = neg_done s -> st s' = st s ->
+  NK g ty rw c0 s o -> NK g ty rw c0 s' o.
+Proof. intros g ty rw c0 s o s' E1 E2 E3 E4 E5 []. constructor; rewrite ?E1, ?E2, ?E3, ?E4, ?E5; auto. Qed.
+Lemma CK_fire_timed : forall ty rw c0 n p s, PH s -> CKs ty rw c0 s p ->
+  CKs ty rw c0 (fst (fire_timed n s)) (p ++ snd (fire_timed n s)).
+Proof.
+  intros ty rw c0 n p s P [C K]. unfold fire_timed, ret. destruct (st s) eqn:St; try (cbn [fst snd]; rewrite app_nil_r; split; assumption).
+  assert (I : K3 (gh s) ty rw c0 p (set_timed (map (fun x => (fst (fst x), true, snd x)) (timed s)) s, [])).
+  { refine (conj _ (conj _ _)); cbn [fst snd]; [ | eauto with crdb | rewrite app_nil_r; eauto with nkdb].
+    apply (PH_neutral s); [apply HFr_set_timed, HFr_refl | apply TI_set_timed, P | apply T01_enable_timed, P
+      | apply (MT_of (set_timed _)); [apply CS_set_timed | apply PL_set_timed | apply P]
+      | apply SmOff_set_timed, P | apply Sn_set_timed, Sn_refl | apply T25_set_timed, P | exact P]. }
+  pose proof (fold_left_inv (K3 (gh s) ty rw c0 p) (visit_timed n) (fun a b Ha => CK_visit_timed (gh s) ty rw c0 n p a b Ha)
+               (map (fun x => fst (fst x)) (timed (set_timed (map (fun x => (fst (fst x), true, snd x)) (timed s)) s))) _ I) as (_ & C1 & K1).
+  eapply CKs_of; eauto.
+Qed.
+Lemma NK_connect_next : forall n g ty rw c0 s o, NK g ty rw c0 s o -> NK g ty rw c0 (fst (fst (connect_next n s))) (o ++ snd (fst (connect_next n s))).
+Proof.
+  intros. name_result. unfold connect_next. pose proof (quiet_sock_connect (cands s)) as Q.
+  destruct (sock_connect (cands s)) as [oo [[k r]|]]; cbn [fst] in Q; leaf;
+    (apply NK_noc; [eauto 10 with nkdb | ]).
+  all: destruct (scan_user_quiet (OSockClose :: oo) false) as (_ & B & _); [cbn; exact Q|];
+    clear - B; unfold has_conn, count_oc in *; induction (OSockClose :: oo) as [|x l IH]; cbn in *; auto;
+    apply orb_false_iff in B; destruct B as [B1 B2]; destruct x; cbn in *; try discriminate; auto.
+Qed.
+Lemma count_oc_wires : forall t (q : list (welem * bool * bool)), count_oc (map (fun x => OWire t (fst (fst x))) q) = 0%nat.
+Proof. intros t q. induction q as [|x q IH]; cbn; auto. Qed.
+Lemma CK_send_phase : forall ty rw c0 p s, CKs ty rw c0 s p -> CKs ty rw c0 (fst (send_phase s)) (p ++ snd (send_phase s)).
+Proof.
+  intros ty rw c0 p s [C K]. unfold send_phase, ret. destruct (st s) eqn:St; try (cbn [fst snd]; rewrite app_nil_r; split; assumption).
+  cbv zeta. match goal with |- context [negb (err ?z =? 0)] => set (y := z) end.
+  assert (Cy : CR true (gh s) ty rw y) by (unfold y; eauto 10 with crdb).
+  assert (Ky : NK (gh s) ty rw c0 y (p ++ map (fun x : welem * bool * bool => OWire (tls_present s) (fst (fst x))) (sendq s))).
+  { apply NK_noc; [|apply count_oc_wires]. eapply NK_same; [ | | | | | exact K]; reflexivity. }
+  clearbody y. destruct (negb (err y =? 0)); [|cbn [fst snd]; eapply CKs_of; eauto].
+  pose proof (CR_conn_disconnect true (gh s) ty rw _ (CR_set_err true _ _ _ ECONNABORTED y Cy)) as Q1.
+  pose proof (NK_conn_disconnect (gh s) ty rw c0 _ _ (NK_set_err ECONNABORTED _ _ _ _ y _ Ky)) as Q2.
+  destruct (conn_disconnect (set_err ECONNABORTED y)) as [s2 o2]. cbn [fst snd] in *. rewrite app_assoc. eapply CKs_of; eauto.
+Qed.
+Lemma CK_ph_pre : forall ty rw c0 rd p s, CKs ty rw c0 s p -> CKs ty rw c0 (ph_pre rd s) p.
+Proof.
+  intros ty rw c0 rd p s [C K]. unfold ph_pre. cases; try (split; assumption);
+    (apply (CKs_of (gh s)); [apply CR_set_rxq; exact C | apply NK_set_rxq; exact K]).
+Qed.
+Lemma CK_ph_reset : forall ty rw c0 p s, CKs ty rw c0 s p -> CKs ty rw c0 (ph_reset s) p.
+Proof.
+  intros ty rw c0 p s [C K]. unfold ph_reset. cases; [|split; assumption].
+  apply (CKs_of (gh s)); [apply CR_set_ps, CR_set_reset_parser; exact C | eapply NK_same; [ | | | | | exact K]; reflexivity].
+Qed.
+Lemma CK_timeout : forall ty rw c0 p e s, CKs ty rw c0 s p ->
+  CKs ty rw c0 (reset_sm_for_reconnect (set_neg_done false (set_st Disconnected (set_err e s)))) (p ++ [ODisconnect e (stream_error (set_neg_done false (set_st Disconnected (set_err e s))))]).
+Proof.
+  intros ty rw c0 p e s [C K]. apply (CKs_of (gh s)).
+  - apply CR_dead_sm; [reflexivity | eauto 10 with crdb].
+  - apply NK_noc; [|reflexivity]. eauto 10 with nkdb.
+Qed.
+Lemma CK_ph_watch : forall ty rw c0 n p s, CKs ty rw c0 s p -> CKs ty rw c0 (fst (ph_watch n s)) (p ++ snd (ph_watch n s)).
+Proof.
+  intros ty rw c0 n p s H. unfold ph_watch, ret. destruct (st s); try (cbn [fst snd]; rewrite app_nil_r; exact H).
+  destruct (n - stamp s <=? CONNECT_TIMEOUT); [cbn [fst snd]; rewrite app_nil_r; exact H|].
+  destruct H as [C K].
+  pose proof (CR_connect_next true (gh s) ty rw n s C) as Q1. pose proof (NK_connect_next n (gh s) ty rw c0 s p K) as Q2.
+  destruct (connect_next n s) as [[s1 o1] ok]. cbn [fst snd] in *.
+  assert (H1 : CKs ty rw c0 s1 (p ++ o1)) by (eapply CKs_of; eauto).
+  destruct ok; cbn [fst snd]; [exact H1|]. rewrite app_assoc. apply CK_timeout. exact H1.
+Qed.
+Lemma CR_set_st_connected : forall g ty rw s, st s = Connecting -> CR true g ty rw s -> CR true g ty rw (set_st Connected s).
+Proof.
+  intros g ty rw s St H. cr_dest H.
+  assert (L : live s = true) by (unfold live; rewrite St; reflexivity).
+  cr_split; auto.
+Qed.
+Lemma NK_set_st_connected : forall g ty rw c0 s o, st s = Connecting -> NK g ty rw c0 s o -> NK g ty rw c0 (set_st Connected s) o.
+Proof.
+  intros g ty rw c0 s o St []. constructor; auto. intros R. destruct (nk_cnt0 R) as [A B]. split; auto.
+  intros E. destruct (B E) as [D|D]; [left; exact D | congruence].
+Qed.
+Lemma CR_conn_established : forall g ty rw n s, CR true g ty rw s -> CR true g ty rw (fst (conn_established n s)).
+Proof.
+  intros g ty rw n s H. name_result. unfold conn_established.
+  destruct (f_legacy_ssl s && negb (is_raw s)).
+  - pose proof (CR_conn_tls_start true g ty rw s H) as Q. destruct (conn_tls_start s) as [[sa oa] ok]. cbn [fst] in Q.
+    cases; leaf; eauto 20 with crdb.
+  - cases; leaf; eauto 20 with crdb.
+Qed.
+Lemma NK_set_neg_done_true_raw : forall g ty c0 s o, NK g ty true c0 s o -> NK g ty true c0 (set_neg_done true s) o.
+Proof. intros g ty c0 s o []. constructor; auto. intros; discriminate. Qed.
+Lemma NK_conn_established : forall n g ty rw c0 s o, NK g ty rw c0 s o ->
+  NK g ty rw c0 (fst (conn_established n s)) (o ++ snd (conn_established n s)).
+Proof.
+  intros n g ty rw c0 s o H. name_result. unfold conn_established.
+  destruct (f_legacy_ssl s && negb (is_raw s)).
+  - pose proof (NK_conn_tls_start g ty rw c0 s o H) as Q. destruct (conn_tls_start s) as [[sa oa] ok]. cbn [fst snd] in Q.
+    cases; leaf; eauto 20 with nkdb.
+    apply NK_assoc. apply NK_noc; [|reflexivity]. pose proof (nk_raw _ _ _ _ _ _ Q) as Rw.
+    match goal with Hq : is_raw sa = true |- _ => rewrite Hq in Rw end. subst rw. apply NK_set_neg_done_true_raw. eauto 10 with nkdb.
+  - cases; leaf; eauto 20 with nkdb.
+    apply NK_assoc. apply NK_noc; [|reflexivity]. pose proof (nk_raw _ _ _ _ _ _ H) as Rw.
+    match goal with Hq : is_raw s = true |- _ => rewrite Hq in Rw end. subst rw. apply NK_nil. apply NK_set_neg_done_true_raw. eauto 10 with nkdb.
+Qed.
+Lemma CK_ph_io : forall ty rw c0 n p s, PHS s -> reset_parser s = false -> CKs ty rw c0 s p ->
+  CKs ty rw c0 (fst (ph_io n s)) (p ++ snd (ph_io n s)).
+Proof.
+  intros ty rw c0 n p s A R H. unfold ph_io, ret. destruct (st s) eqn:St; try (cbn [fst snd]; rewrite app_nil_r; exact H).
+  - (* Connecting *)
+    destruct (cur_ep s) eqn:E; try (cbn [fst snd]; rewrite app_nil_r; exact H).
+    + destruct H as [C K]. set (x := set_st Connected s).
+      pose proof (CR_conn_established (gh s) ty rw n x (CR_set_st_connected _ _ _ s St C)) as Q1.
+      pose proof (NK_conn_established n (gh s) ty rw c0 x p (NK_set_st_connected _ _ _ _ s p St K)) as Q2.
+      destruct (conn_established n x) as [s1 o1]. cbn [fst snd] in *. eapply CKs_of; eauto.
+    + destruct H as [C K].
+      pose proof (CR_connect_next true (gh s) ty rw n s C) as Q1. pose proof (NK_connect_next n (gh s) ty rw c0 s p K) as Q2.
+      destruct (connect_next n s) as [[s1 o1] ok]. cbn [fst snd] in *.
+      assert (H1 : CKs ty rw c0 s1 (p ++ o1)) by (eapply CKs_of; eauto).
+      destruct ok; cbn [fst snd]; [exact H1|]. rewrite app_assoc. apply CK_timeout. exact H1.
+  - (* Connected *)
+    cbv zeta. set (x := set_rxq (tl (rxq s)) s).
+    assert (Hx : CKs ty rw c0 x p) by (destruct H as [C K]; apply (CKs_of (gh s)); [apply CR_set_rxq; exact C | apply NK_set_rxq; exact K]).
+    assert (Px : PH x) by (apply (PH_step_neutral (set_rxq _)); try ph_setter; apply A).
+    destruct (match rxq s with [] => RdNone | r :: _ => r end); try (cbn [fst snd]; rewrite app_nil_r; exact Hx).
+    + assert (FIx : FI x).
+      { refine (conj Px (conj _ _)); [intros _ D; change (st x) with (st s) in D; congruence | intros _; split; [exact St | exact R]]. }
+      pose proof (CK_feed_items ty rw c0 n its p x FIx Hx) as [Q1 Q2].
+      destruct (feed_items n its x) as [[s1 o1] bad]. cbn [fst snd] in *. destruct bad; cbn [fst snd]; [|split; assumption].
+      apply (CKs_of (gh s1)); eauto with crdb nkdb.
+    + destruct Hx as [Cx Kx].
+      assert (Q : CKs ty rw c0 (fst (conn_disconnect (set_err ECONNRESET x))) (p ++ snd (conn_disconnect (set_err ECONNRESET x)))).
+      { apply (CKs_of (gh x)); [apply CR_conn_disconnect, CR_set_err; exact Cx | apply NK_conn_disconnect, NK_set_err; exact Kx]. }
+      destruct (tls_present x); exact Q.
+    + destruct Hx as [Cx Kx]. apply (CKs_of (gh x)); [apply CR_conn_disconnect, CR_set_err; exact Cx | apply NK_conn_disconnect, NK_set_err; exact Kx].
+Qed.
+Lemma CK_run_once : forall ty rw c0 n rd s, PHS s -> CKs ty rw c0 s [] ->
+  CKs ty rw c0 (fst (run_once n rd s)) (snd (run_once n rd s)).
+Proof.
+  intros ty rw c0 n rd s A H.
+  apply (run_once_ind (fun s o => PHS s /\ CKs ty rw c0 s o) (fun s o => (PHS s /\ reset_parser s = false) /\ CKs ty rw c0 s o)
+           (fun s o => (PHS s /\ reset_parser s = false) /\ CKs ty rw c0 s o) (fun s o => (PHS s /\ reset_parser s = false) /\ CKs ty rw c0 s o)
+           (fun s o => PHS s /\ CKs ty rw c0 s o) (fun s o => PHS s /\ CKs ty rw c0 s o) (fun s o => CKs ty rw c0 s o)); auto.
+  - intros _. split; [apply PHS_send_phase, PHS_ph_pre, A|].
+    pose proof (CK_send_phase ty rw c0 [] (ph_pre rd s) (CK_ph_pre ty rw c0 rd [] s H)) as Q. exact Q.
+  - intros s1 o [A1 H1]. exact H1.
+  - intros s1 o [A1 H1]. split; [apply PHS_ph_reset, A1 | apply CK_ph_reset, H1].
+  - intros s1 o [[A1 R1] H1]. split; [split; [apply PHS_fire_timed, A1|] | apply CK_fire_timed; [apply A1 | exact H1]].
+    pose proof (RPF_fire_timed n s1 s1 (RPF_refl s1)) as F. rewrite (rpf_rp _ _ F). exact R1.
+  - intros s1 o [_ H1]. exact H1.
+  - intros s1 o [[A1 R1] H1]. split; [apply PHS_ph_watch; assumption | apply CK_ph_watch, H1].
+  - intros s1 o [_ H1]. destruct H1 as [C K]. apply (CKs_of (gh s1)); [exact C | apply NK_noc; [exact K | reflexivity]].
+  - intros s1 o [[A1 R1] H1]. split; [apply PHS_ph_io; assumption | apply CK_ph_io; assumption].
+  - intros s1 o [_ H1]. exact H1.
+  - intros s1 o [A1 H1]. split; [apply PHS_fire_timed, A1 | apply CK_fire_timed; [apply A1 | exact H1]].
+  - intros s1 o [_ H1]. destruct H1 as [C K]. apply (CKs_of (gh s1)); [exact C | apply NK_noc; [exact K | reflexivity]].
+Qed.
+
+(* ------------------------------------------------------------------ step level *)
+Definition CKI (s : state) : Prop := CKs (typ s) (is_raw s) (g_connects (gh s)) s [].
+Lemma CR_same_g : forall b g g' ty rw s, g_auth_ok g' = g_auth_ok g -> g_bound g' = g_bound g -> g_resumed g' = g_resumed g ->
+  CR b g ty rw s -> CR b g' ty rw s.
+Proof. intros b g g' ty rw s E1 E2 E3 H. cr_dest H. cr_split; rewrite ?E1, ?E2, ?E3; auto. Qed.
+Lemma note_outs_fields : forall outs g,
+  g_auth_ok (fold_left note_out outs g) = g_auth_ok g /\ g_bound (fold_left note_out outs g) = g_bound g /\
+  g_resumed (fold_left note_out outs g) = g_resumed g /\ g_conn_unjust (fold_left note_out outs g) = g_conn_unjust g /\
+  g_connects (fold_left note_out outs g) = (g_connects g + count_oc outs)%nat.
+Proof.
+  induction outs as [|o outs IH]; intros g; cbn [fold_left]; [repeat split; cbn; auto; lia|].
+  destruct (IH (note_out g o)) as (A & B & C & D & E). rewrite A, B, C, D, E.
+  destruct g; destruct o as [| | | |[|]| | | | | | | | |]; cbn; unfold count_oc; repeat split; try reflexivity; lia.
+Qed.
+Lemma CKI_note_outs : forall s s1 outs, CKs (typ s) (is_raw s) (g_connects (gh s)) s1 outs -> typ s1 = typ s -> is_raw s1 = is_raw s ->
+  CKI (note_outs outs s1).
+Proof.
+  intros s s1 outs [C K] Et Er. destruct (note_outs_fields outs (gh s1)) as (A & B & Cc & D & E).
+  unfold CKI, CKs, note_outs. sproj. rewrite Et, Er. split.
+  - apply CR_set_gh. eapply CR_same_g; eauto.
+  - destruct K. constructor; sproj; auto using GFr_refl; try congruence.
+    intros R. destruct (nk_cnt0 R) as [X Y]. rewrite E, nk_c1, Nat.add_0_r. cbn [count_oc filter List.length]. split; auto.
+Qed.
+Lemma CKI_inner : forall s s1 outs, CKI s -> (forall ty rw c0, CKs ty rw c0 s [] -> CKs ty rw c0 s1 outs) -> Fr s s1 -> CKI (note_outs outs s1).
+Proof.
+  intros s s1 outs H F Ff. apply (CKI_note_outs s); [apply F; exact H | apply (fr_typ _ _ Ff) | apply (fr_is_raw _ _ Ff)].
+Qed.
+Lemma CKI_of : forall s s1 outs, CKs (typ s) (is_raw s) (g_connects (gh s)) s1 outs -> CKI (note_outs outs s1).
+Proof. intros s s1 outs H. apply (CKI_note_outs s); [exact H | apply (nk_typ _ _ _ _ _ _ (proj2 H)) | apply (nk_raw _ _ _ _ _ _ (proj2 H))]. Qed.
+Lemma CKI_fn : forall s s1 outs, CR true (gh s) (typ s) (is_raw s) s1 -> NK (gh s) (typ s) (is_raw s) (g_connects (gh s)) s1 outs ->
+  CKI (note_outs outs s1).
+Proof. intros s s1 outs C K. apply (CKI_of s). eapply CKs_of; eauto. Qed.
+Lemma CR_fields : forall b g ty rw s s', handlers s' = handlers s -> idhandlers s' = idhandlers s -> oh s' = oh s ->
+  sm_resume s' = sm_resume s -> sm_enabled s' = sm_enabled s -> st s' = st s -> CR b g ty rw s -> CR b g ty rw s'.
+Proof.
+  intros b g ty rw s s' E1 E2 E3 E4 E5 E6 H. cr_dest H.
+  unfold CR, postauth, clientreg, live, h_has, id_has, hmarks, imarks in *. rewrite E1, E2, E3, E4, E5, E6. cr_split; auto.
+Qed.
+(* the fields the connect invariant reads *)
+Definition SameF (s s' : state) : Prop :=
+  handlers s' = handlers s /\ idhandlers s' = idhandlers s /\ oh s' = oh s /\ sm_resume s' = sm_resume s /\ sm_enabled s' = sm_enabled s /\
+  st s' = st s /\ gh s' = gh s /\ typ s' = typ s /\ is_raw s' = is_raw s /\ neg_done s' = neg_done s.
+Ltac samef := unfold SameF; sproj; repeat split; reflexivity.
+Lemma SameF_refl : forall s, SameF s s.
+Proof. intros; repeat split; reflexivity. Qed.
+Lemma CKs_fields : forall ty rw c0 s s' o, SameF s s' -> CKs ty rw c0 s o -> CKs ty rw c0 s' o.
+Proof.
+  intros ty rw c0 s s' o (E1 & E2 & E3 & E4 & E5 & E6 & E7 & E8 & E9 & E10) [C K]. unfold CKs. rewrite E7. split.
+  - eapply CR_fields; eauto.
+  - eapply NK_same; [ | | | | | exact K]; auto.
+Qed.
+Lemma CKI_fields : forall s s', SameF s s' -> CKI s -> CKI s'.
+Proof.
+  intros s s' F H. pose proof F as (E1 & E2 & E3 & E4 & E5 & E6 & E7 & E8 & E9 & E10). unfold CKI. rewrite E7, E8, E9.
+  eapply CKs_fields; eauto.
+Qed.
+Lemma CKs_out0 : forall ty rw c0 s o o', CKs ty rw c0 s o -> count_oc o' = 0%nat -> CKs ty rw c0 s (o ++ o').
+Proof. intros ty rw c0 s o o' [C K] Z. split; [exact C | apply NK_noc; assumption]. Qed.
+Lemma CKI_eqf : forall s s' outs, SameF s s' -> CKI s -> count_oc outs = 0%nat -> CKI (note_outs outs s').
+Proof.
+  intros s s' outs F H Z. apply (CKI_of s'). apply (CKs_out0 _ _ _ s' [] outs); [|exact Z]. exact (CKI_fields s s' F H).
+Qed.
+Lemma set_flags_SameF : forall w s, SameF s (fst (set_flags w s)).
+Proof. intros w s. unfold set_flags. cases; cbn [fst]; try apply SameF_refl; samef. Qed.
+
+(* a new attempt *)
+Lemma pa_user_only : forall (l : list (hkind * bool)), existsb (fun x => is_pa (fst x)) (filter (fun x => hkind_eqb (fst x) HUser) l) = false.
+Proof.
+  induction l as [|x l IH]; [reflexivity|]. cbn [filter]. destruct (hkind_eqb (fst x) HUser) eqn:E; auto.
+  apply hkind_eqb_eq in E. cbn [existsb]. rewrite E. exact IH.
+Qed.
+Lemma count_oc_quiet : forall oo, has_conn oo = false -> count_oc oo = 0%nat.
+Proof.
+  intros oo B. unfold has_conn, count_oc in *. induction oo as [|x l IH]; cbn in *; auto. apply orb_false_iff in B. destruct B as [B1 B2].
+  destruct x; cbn in *; try discriminate; auto.
+Qed.
+Definition DOff (s : state) : Prop := st s = Disconnected -> sm_enabled s = false.
+Lemma CKI_conn_connect : forall n t s, DOff s -> CKI s -> forall outs', count_oc outs' = 0%nat ->
+  CKI (note_outs (snd (fst (conn_connect n t s)) ++ outs') (fst (fst (conn_connect n t s)))).
+Proof.
+  intros n t s A H outs' Z. unfold conn_connect. destruct (st s) eqn:C.
+  2,3: cbn [fst snd app]; apply (CKI_of s); apply (CKs_out0 _ _ _ _ [] outs'); [exact H | exact Z].
+  pose proof (A C) as S1. destruct H as [Cr Kr]. pose proof Cr as Cr'. cr_dest Cr'.
+  cbv zeta.
+  match goal with |- context [sock_connect ?c] => pose proof (quiet_sock_connect c) as Q; destruct (sock_connect c) as [oo [[k r]|]] end; cbn [fst snd] in *.
+  - (* the attempt starts: fresh registrations, fresh ghost *)
+    match goal with |- CKI (note_outs ?o ?x) => assert (Hx : CKs (typ x) (is_raw x) (g_connects (gh x)) x o); [|exact (CKI_of x x o Hx)] end.
+    unfold conn_reset, prepare_reset. rewrite C. cbv zeta. split.
+    + sproj. cr_split; unfold postauth, clientreg, live, h_has, id_has, hmarks, imarks; sproj;
+        rewrite ?pa_user_only, ?hmarks_user_only, ?h_has_user_only; cbn [existsb filter List.length Nat.eqb negb orb]; auto; try (intros; discriminate); try congruence.
+      * destruct (is_raw s); cbn; [intros; discriminate|]. destruct t; cbn; intros; discriminate.
+      * intros _. destruct (is_raw s); cbn; [intros; discriminate|]. destruct t; cbn; intros; try discriminate. split; reflexivity.
+      * intros _ [X|X]; [discriminate|]. destruct (is_raw s); [discriminate|]. destruct t; [discriminate|]. split; reflexivity.
+      * destruct (is_raw s); [discriminate|]. destruct t; discriminate.
+    + constructor; sproj; auto using GFr_refl.
+      intros R. assert (Z' : count_oc (oo ++ outs') = 0%nat).
+      { rewrite count_oc_app, Z, Nat.add_0_r. apply count_oc_quiet. destruct (scan_user_quiet oo false Q) as (_ & B & _). exact B. }
+      rewrite Z'. cbn. split; [lia | intros; discriminate].
+  - (* no candidate answered: still disconnected, registrations already dropped *)
+    match goal with |- CKI (note_outs ?o ?x) => assert (Hx : CKs (typ x) (is_raw x) (g_connects (gh x)) x o); [|exact (CKI_of x x o Hx)] end.
+    unfold conn_reset. rewrite C. cbv zeta. split.
+    + sproj. cr_split; unfold postauth, clientreg, live, h_has, id_has, hmarks, imarks; sproj; rewrite ?C;
+        rewrite ?pa_user_only, ?hmarks_user_only, ?h_has_user_only; cbn [existsb filter List.length Nat.eqb negb orb]; auto; try (intros; discriminate); try congruence.
+      all: try (intros P; apply R1; unfold postauth; rewrite P; rewrite ?orb_true_r; reflexivity).
+    + destruct Kr. constructor; sproj; auto using GFr_refl.
+      intros R. assert (Z' : count_oc (oo ++ outs') = 0%nat).
+      { rewrite count_oc_app, Z, Nat.add_0_r. apply count_oc_quiet. destruct (scan_user_quiet oo false Q) as (_ & B & _). exact B. }
+      rewrite Z'. rewrite Nat.add_0_r. split; [|right; exact C].
+      destruct (nk_cnt0 R) as [X _]. unfold count_oc in X. cbn in X. lia.
+Qed.
+
+Lemma DOff_fields : forall s s', SameF s s' -> DOff s -> DOff s'.
+Proof. intros s s' (E1 & E2 & E3 & E4 & E5 & E6 & E7) D. unfold DOff. rewrite E5, E6. exact D. Qed.
+Lemma CKI_connect_client : forall n s, DOff s -> CKI s -> forall outs', count_oc outs' = 0%nat ->
+  CKI (note_outs (snd (fst (connect_client n s)) ++ outs') (fst (fst (connect_client n s)))).
+Proof.
+  intros n s D H outs' Z. unfold connect_client.
+  match goal with |- context [negb (jid_set ?x)] => assert (F : SameF s x) by (cases; [samef | apply SameF_refl]); generalize dependent x end.
+  intros x F. pose proof (CKI_fields _ _ F H) as Hx. pose proof (DOff_fields _ _ F D) as Dx. clear F H D.
+  destruct (negb (jid_set x)).
+  - cbn [fst snd app]. apply (CKI_eqf x x); auto using SameF_refl.
+  - assert (F : SameF x (set_cands (next_cands x) x)) by samef.
+    apply CKI_conn_connect; [eapply DOff_fields; eauto | eapply CKI_fields; eauto | exact Z].
+Qed.
+Lemma CKI_connect_component : forall n s, DOff s -> CKI s -> forall outs', count_oc outs' = 0%nat ->
+  CKI (note_outs (snd (fst (connect_component n s)) ++ outs') (fst (fst (connect_component n s)))).
+Proof.
+  intros n s D H outs' Z. unfold connect_component.
+  destruct (negb (jid_set s && pass_set s)).
+  - cbn [fst snd app]. apply (CKI_eqf s s); auto using SameF_refl.
+  - cbv zeta. match goal with |- context [set_flags ?w s] => pose proof (set_flags_SameF w s) as F; destruct (set_flags w s) as [x rc] end.
+    cbn [fst] in F. pose proof (CKI_fields _ _ F H) as Hx. pose proof (DOff_fields _ _ F D) as Dx.
+    destruct (negb (f_tls_disabled x)).
+    + cbn [fst snd app]. apply (CKI_eqf x x); auto using SameF_refl.
+    + assert (F' : SameF x (set_cands (next_cands x) x)) by samef.
+      apply CKI_conn_connect; [eapply DOff_fields; eauto | eapply CKI_fields; eauto | exact Z].
+Qed.
+Lemma CKI_set_is_raw : forall s, st s = Disconnected -> CKI s -> CKI (set_is_raw true s).
+Proof.
+  intros s C [Cr Kr]. cr_dest Cr. destruct Kr. unfold CKI, CKs. sproj. split.
+  - unfold CR, postauth, clientreg, live, h_has, id_has, hmarks, imarks in *. sproj. rewrite C in *.
+    cr_split; auto; try (intros; discriminate).
+  - constructor; sproj; auto using GFr_refl. intros; discriminate.
+Qed.
+Lemma DOff_set_is_raw : forall v s, DOff s -> DOff (set_is_raw v s).
+Proof. intros v s D. unfold DOff. sproj. exact D. Qed.
+Lemma okh_user : forall g ty rw s, okh g ty rw s HUser.
+Proof. intros. repeat split; intros; discriminate. Qed.
+Lemma okr_raw : forall g ty, okr g ty true OpenRaw.
+Proof. intros. repeat split; intros; try discriminate; auto. Qed.
+
+Lemma CKI_step0 : forall s o, PHS s -> CKI s -> CKI (note_outs (snd (step0 s o)) (fst (step0 s o))).
+Proof.
+  intros s o A H. assert (D : DOff s) by (intros C; apply (ph_smoff _ (proj1 A) C)).
+  unfold step0, ret. destruct (crashed s); [cbn [fst snd]; apply (CKI_eqf s s); auto using SameF_refl|].
+  destruct o.
+  - (* OpSetFlags *) pose proof (set_flags_SameF w s) as F. destruct (set_flags w s) as [x rc]. cbn [fst snd] in *.
+    apply (CKI_eqf s x); auto.
+  - destruct (st s) eqn:C; cbn [fst snd]; apply (CKI_eqf s); auto using SameF_refl; samef.
+  - destruct (st s) eqn:C; cbn [fst snd]; apply (CKI_eqf s); auto using SameF_refl; samef.
+  - destruct (st s) eqn:C; cbn [fst snd]; apply (CKI_eqf s); auto using SameF_refl; samef.
+  - (* OpUserHandlers *)
+    destruct (st s) eqn:C; cbn [fst snd]. 2,3: apply (CKI_eqf s s); auto using SameF_refl.
+    destruct H as [Cr Kr]. apply (CKI_fn s).
+    + apply CR_set_user_timed, CR_set_user_handler.
+      assert (C1 : CR true (gh s) (typ s) (is_raw s) (if stanza then h_add HUser s else s)) by (destruct stanza; [apply CR_h_add; [apply okh_user | exact Cr] | exact Cr]).
+      destruct timed; [apply CR_timed_add|]; exact C1.
+    + assert (K1 : NK (gh s) (typ s) (is_raw s) (g_connects (gh s)) (if stanza then h_add HUser s else s) []) by (destruct stanza; [apply NK_h_add|]; exact Kr).
+      match goal with |- NK _ _ _ _ (set_user_timed _ (set_user_handler _ ?x)) _ => set (X := x) end.
+      assert (KX : NK (gh s) (typ s) (is_raw s) (g_connects (gh s)) X []) by (unfold X; destruct timed; [apply NK_timed_add|]; exact K1).
+      clearbody X. eapply NK_same; [ | | | | | exact KX]; sproj; reflexivity.
+  - destruct (st s) eqn:C; cbn [fst snd]; apply (CKI_eqf s); auto using SameF_refl; samef.
+  - cbn [fst snd]; apply (CKI_eqf s); auto; samef.
+  - (* OpConnectClient *)
+    pose proof (CKI_connect_client now s D H) as Q. destruct (connect_client now s) as [[x oo] rc]. cbn [fst snd] in *. apply Q. reflexivity.
+  - (* OpConnectRaw *)
+    destruct (st s) eqn:C. 2,3: cbn [fst snd]; apply (CKI_eqf s s); auto using SameF_refl.
+    pose proof (CKI_connect_client now _ (DOff_set_is_raw true s D) (CKI_set_is_raw s C H)) as Q.
+    destruct (connect_client now (set_is_raw true s)) as [[x oo] rc]. cbn [fst snd] in *. apply Q. reflexivity.
+  - (* OpConnectComponent *)
+    pose proof (CKI_connect_component now s D H) as Q. destruct (connect_component now s) as [[x oo] rc]. cbn [fst snd] in *. apply Q. reflexivity.
+  - (* OpRun *) apply (CKI_of s). apply CK_run_once; assumption.
+  - (* OpDisconnect *) destruct H as [Cr Kr]. cbn [fst snd]. apply (CKI_fn s); [apply CR_xmpp_disconnect | apply NK_xmpp_disconnect]; assumption.
+  - destruct H as [Cr Kr]. cbn [fst snd]. apply (CKI_fn s); [apply CR_send_gated | apply NK_send_gated]; assumption.
+  - destruct H as [Cr Kr]. cbn [fst snd]. apply (CKI_fn s); [apply CR_send_raw_m | apply NK_send_raw_m]; assumption.
+  - cbn [fst snd]. apply (CKI_eqf s s); auto using SameF_refl.
+  - (* OpOpenStream *)
+    destruct (is_raw s) eqn:Rw; cbn [fst snd]; [|apply (CKI_eqf s s); auto using SameF_refl].
+    destruct H as [Cr Kr]. apply (CKI_fn s); rewrite Rw in *.
+    + apply CR_conn_open_stream, CR_prepare_reset; [apply okr_raw | exact Cr].
+    + apply NK_conn_open_stream, NK_prepare_reset. exact Kr.
+  - (* OpRelease *)
+    destruct (st s) eqn:C. 1: cbn [fst snd]; apply (CKI_eqf s s); auto using SameF_refl.
+    all: destruct H as [Cr Kr]; (apply (CKI_fn s); [apply CR_conn_disconnect; exact Cr | apply (NK_conn_disconnect _ _ _ _ s [] Kr)]).
+Qed.
+Lemma CKI_step : forall s o, PHS s -> CKI s -> CKI (fst (step s o)).
+Proof. intros s o A H. rewrite step_eq. cbn [fst]. apply CKI_step0; assumption. Qed.
+Lemma CKI_init : CKI init_state.
+Proof.
+  split.
+  - cr_split; cbn; intros; try discriminate; try (destruct H0; discriminate).
+  - constructor; try reflexivity; auto using GFr_refl; try (cbn; intros _; split; [lia | intros; discriminate]).
+Qed.
+
+Theorem connect_ok : forall ops, check_run ok_connect init_state ops = true.
+Proof.
+  intros ops. apply (check_run_inv ok_connect (fun s => PHS s /\ CKI s)).
+  3: split; [apply PHS_init | apply CKI_init].
+  - intros s o [A H]. split; [apply PHS_step; exact A | apply CKI_step; assumption].
+  - intros s o [A H]. pose proof (CKI_step s o A H) as [_ K]. destruct K.
+    unfold ok_connect. rewrite nk_nu0. cbn [negb]. rewrite andb_true_r.
+    destruct (is_raw (fst (step s o))) eqn:Rw; [reflexivity|]. cbn [orb]. apply Nat.leb_le.
+    destruct (nk_cnt0 eq_refl) as [X _]. unfold count_oc in X. cbn in X. lia.
+Qed.
+
 (* ================================================================== registration skeleton *)
 Lemma Gen_skeleton_ok : skeleton_ok skeleton = true.
 Proof. vm_compute. reflexivity. Qed.
